@@ -1,26 +1,29 @@
-(* parse (print_story s) = POk (compile_ref s): the parser model (Compiler/Parse*.v) run on the text that
-   the .bard printer (Story/SourcePrint.v) produces for a source AST yields the compiled story that
-   compile_ref (Story/Source.v) specifies, for every source story satisfying `printable`.
+(* parse (print_story s) = POk (compile_ref s): the parser model (Compiler/Parse*.v with the real block
+   extractors, ParseAllProofs.parse_real) run on the text that the .bard printer (Story/SourcePrint.v) produces
+   for a source AST yields exactly the compiled story that compile_ref (Story/Source.v) specifies, for every
+   source story satisfying the executable predicate `printable` (Story/SourcePrint.v).
 
    Layers, each its own theorem:
-     (i)   parse_content_line_pieces     a printed content line tokenizes to c_pieces (inline conditionals nested
-                                         up to the compiler's own limit of 50, {expr}, {expr:spec}, literal text)
-     (ii)  step_text ... step_header     every printed line kind is classified by the main loop (`classify`) and
-                                         handled as compile_ref says: text (with / without glue), blank, ~ statement,
-                                         jump, @render, @input, @hook / @unhook, @join marker, choice (condition,
-                                         arguments, sticky / one-time), passage header with parameters
-     (iii) parse_print_gen               the whole story, by induction over the main loop (`reaches`), for any block
+     (i)   parse_content_line_pieces     a printed content line tokenizes to c_pieces (literal text, {expr},
+                                         {expr:spec}, inline conditionals nested up to the compiler's limit of 50)
+     (ii)  classify / step_text ... step_header   every printed line kind is classified by the main loop and handled
+                                         as compile_ref says: text (with / without glue), blank, ~ statement, jump,
+                                         @render, @input, @hook / @unhook, @join marker, choice (condition, arguments,
+                                         sticky / one-time, -> @join), passage header with parameters
+     (iii) parse_print_gen               the whole story by induction over the main loop (`reaches`), for any block
                                          extractors that do on the printed blocks what compile_ref says
-                                         (item_steps / choice_steps)
-     (iv)  py_item_steps, join_choice_steps   @py: blocks and the blocks of `-> @join` choices through the real
-                                         extractors (extract_python_block, extract_join_choice_block with
-                                         detect_and_strip_indentation)
-           parse_print_flat              FULL theorem for parse_real on stories without @if / @for blocks
-     normalisations_agree                the parser model's _cleanup_whitespace / _trim_trailing_newlines are the
-                                         same functions as Source.cleanup_ws / trim_trailing *)
+                                         (item_steps / choice_steps); the two whitespace normalisations of the parser
+                                         model are the functions of Source.v (normalisations_agree)
+     (iv)  py_block_at, extract_join_print, blocks_spec   the real extractors on printed blocks: @py: bodies and the
+                                         blocks of `-> @join` choices (detect_and_strip_indentation on the 4-space
+                                         indentation), @if / @elif / @else and @for at any indentation and any nesting
+                                         (cond_body_print, loop_body_print; mutual induction on the item, fuel and the
+                                         depth cap of 100)
+           parse_print_flat              stories without @if / @for blocks (corollary kept from the layering)
+           parse_print_full              FULL: every printable story *)
 From Coq Require Import String Ascii List Bool Arith ZArith Lia.
 From Bardic Require Import PyStr Value Compiled Source Lex ParseBase ParseLine ParseMain SourcePrint LexProofs ParseProofs.
-From Bardic Require ParseBlocks ParseBlocksInst ParseAllProofs ParseCheck.
+From Bardic Require ParseBlocks ParseBlocksInst ParseAllProofs ParseCheck ReferenceProofs Engine EngineBase Reference.
 Import ListNotations.
 
 (* ===== part 1 ===== *)
@@ -1381,14 +1384,6 @@ Qed.
 Lemma is_ok_unit : forall (m : pres unit), is_ok m = true -> m = POk tt.
 Proof. intros [[]| | |] H; try discriminate; reflexivity. Qed.
 
-Lemma params_eqb_eq : forall a b, params_eqb a b = true -> a = b.
-Proof.
-  induction a as [|[n d] a IH]; intros [|[n' d'] b] H; try discriminate; [reflexivity|].
-  simpl in H. apply andb_prop in H. destruct H as [H H3]. apply andb_prop in H. destruct H as [H1 H2].
-  apply String.eqb_eq in H1. subst n'. rewrite (IH b H3).
-  destruct d, d'; simpl in H2; try discriminate; [apply String.eqb_eq in H2; subst|]; reflexivity.
-Qed.
-
 (* ===== part 7 ===== *)
 Local Open Scope string_scope.
 Local Open Scope nat_scope.
@@ -1765,6 +1760,239 @@ Proof.
 Qed.
 
 (* ------------------------------------------------------------------------------------------- *)
+(* the parameter list of a header                                                               *)
+(* ------------------------------------------------------------------------------------------- *)
+Definition plain_char (c : ascii) : bool := negb (ch c "," || is_opener c || is_closer c).
+Definition plainp (s : string) : bool := all_chars plain_char s.
+
+Lemma soc_plain : forall P rest parts cur, plainp P = true ->
+  split_on_commas_aux (P ++ rest) parts cur 0 = split_on_commas_aux rest parts (cur ++ P) 0.
+Proof.
+  induction P as [|c P IH]; intros rest parts cur H.
+  - rewrite sapp_nil_r. reflexivity.
+  - unfold plainp in H. simpl in H. apply andb_prop in H. destruct H as [H1 H2].
+    unfold plain_char in H1. apply negb_true_iff in H1. apply orb_false_elim in H1. destruct H1 as [H1 Hc].
+    apply orb_false_elim in H1. destruct H1 as [Hcomma Ho].
+    cbn [append split_on_commas_aux]. rewrite Ho, Hc, Hcomma. cbn [andb].
+    rewrite (IH rest parts _ H2). rewrite snoc_app, sapp_cons. reflexivity.
+Qed.
+
+Lemma soc_join : forall Ps P parts cur, plainp P = true -> Forall (fun x => plainp x = true) Ps ->
+  nonempty (cur ++ P) = true -> Forall (fun x => nonempty x = true) Ps ->
+  split_on_commas_aux (join ", " (P :: Ps)) parts cur 0 =
+  (rev parts ++ (cur ++ P)%string :: map (fun x => (" " ++ x)%string) Ps)%list.
+Proof.
+  induction Ps as [|Q Ps IH]; intros P parts cur HP HPs Hne HnePs.
+  - cbn [join map]. rewrite <- (sapp_nil_r P) at 1. rewrite (soc_plain P "" parts cur HP).
+    cbn [split_on_commas_aux]. rewrite Hne. cbn [rev]. reflexivity.
+  - inversion HPs as [|? ? HQ HPs']; subst. inversion HnePs as [|? ? HQne HnePs']; subst.
+    change (join ", " (P :: Q :: Ps)) with (P ++ ", " ++ join ", " (Q :: Ps)).
+    rewrite (soc_plain P _ parts cur HP).
+    change (", " ++ join ", " (Q :: Ps)) with (String "," (String " " (join ", " (Q :: Ps)))).
+    cbn [split_on_commas_aux]. replace (is_opener ",") with false by reflexivity.
+    replace (is_closer ",") with false by reflexivity. replace (ch "," "," && (0 =? 0)%Z) with true by reflexivity.
+    replace (is_opener " ") with false by reflexivity. replace (is_closer " ") with false by reflexivity.
+    replace (ch " " "," && (0 =? 0)%Z) with false by reflexivity.
+    rewrite (IH Q ((cur ++ P) :: parts) (snoc "" " ") HQ HPs').
+    + cbn [rev map]. rewrite <- List.app_assoc. reflexivity.
+    + reflexivity.
+    + exact HnePs'.
+Qed.
+
+Lemma word_plain : forall s, all_chars is_word s = true -> plainp s = true.
+Proof.
+  intros s H. eapply all_chars_imp; [|exact H]. intros c Hc. destruct c as [b0 b1 b2 b3 b4 b5 b6 b7].
+  destruct b0, b1, b2, b3, b4, b5, b6, b7; vm_compute in Hc |- *; try reflexivity; discriminate.
+Qed.
+
+Lemma identifier_facts : forall s, is_identifier s = true ->
+  nonempty s = true /\ all_chars is_word s = true /\ starts_ns s = true.
+Proof.
+  intros [|c r] H; [discriminate|]. simpl in H. apply andb_prop in H. destruct H as [H1 H2].
+  assert (W : is_word c = true /\ is_space c = false).
+  { destruct c as [b0 b1 b2 b3 b4 b5 b6 b7].
+    destruct b0, b1, b2, b3, b4, b5, b6, b7; vm_compute in H1 |- *; try (split; reflexivity); discriminate. }
+  destruct W as [W1 W2]. repeat split.
+  - simpl. rewrite W1, H2. reflexivity.
+  - simpl. rewrite W2. reflexivity.
+Qed.
+
+Lemma word_not_space : forall c, is_word c = true -> is_space c = false.
+Proof.
+  intros c H. destruct c as [b0 b1 b2 b3 b4 b5 b6 b7].
+  destruct b0, b1, b2, b3, b4, b5, b6, b7; vm_compute in H |- *; try reflexivity; discriminate.
+Qed.
+
+Lemma word_rstrip : forall s, all_chars is_word s = true -> rstrip s = s.
+Proof.
+  induction s as [|x s IH]; intros H; [reflexivity|]. simpl in H. apply andb_prop in H. destruct H as [H1 H2].
+  rewrite rstrip_cons_ne by (apply word_not_space, H1). rewrite (IH H2). reflexivity.
+Qed.
+
+Lemma word_no_eq : forall s, all_chars is_word s = true -> all_chars (fun c => negb (ch c "=")) s = true.
+Proof.
+  intros s H. eapply all_chars_imp; [|exact H]. intros c Hc. destruct (ch c "=") eqn:E; [|reflexivity].
+  apply ch_eq in E. subst c. vm_compute in Hc. discriminate.
+Qed.
+
+Lemma default_ok_parts : forall d, default_ok d = true -> trimmed d = true /\ plainp d = true.
+Proof. intros d H. unfold default_ok in H. apply andb_prop in H. exact H. Qed.
+
+(* one printed parameter *)
+Lemma print_param_facts : forall p, param_ok p = true ->
+  plainp (print_param p) = true /\ nonempty (print_param p) = true /\ strip (print_param p) = print_param p /\
+  starts_ns (print_param p) = true /\ rstrip (print_param p) = print_param p.
+Proof.
+  intros [n d] H. unfold param_ok in H. cbn [pname pdefault] in H.
+  do 2 (apply andb_prop in H; destruct H as [H ?]). rename H into Hid. rename H0 into Hd. rename H1 into Hkw.
+  destruct (identifier_facts n Hid) as [Hne [Hw Hns]]. unfold print_param. cbn [pname pdefault].
+  assert (R : rstrip (match d with Some d0 => (n ++ "=" ++ d0)%string | None => n end) =
+              (match d with Some d0 => (n ++ "=" ++ d0)%string | None => n end)).
+  { destruct d as [d|]; [|apply word_rstrip, Hw].
+    destruct (default_ok_parts d Hd) as [Ht _]. destruct d as [|d0 dr].
+    - rewrite rstrip_app_ne; [reflexivity|discriminate].
+    - destruct (trimmed_parts _ Ht ltac:(discriminate)) as [_ Hr].
+      rewrite rstrip_app_ne; [f_equal; change ("=" ++ String d0 dr)%string with (String "=" (String d0 dr));
+                               rewrite rstrip_cons_ne by reflexivity; rewrite Hr; reflexivity|].
+      change ("=" ++ String d0 dr)%string with (String "=" (String d0 dr)). rewrite rstrip_cons_ne by reflexivity. discriminate. }
+  assert (N : starts_ns (match d with Some d0 => (n ++ "=" ++ d0)%string | None => n end) = true).
+  { destruct d; [apply starts_ns_app, Hns|exact Hns]. }
+  split; [|split; [|split; [apply strip_fixed; assumption|split; assumption]]].
+  - destruct d as [d|]; [|apply word_plain, Hw]. destruct (default_ok_parts d Hd) as [_ Hp].
+    unfold plainp. rewrite !all_chars_app. fold (plainp n). rewrite (word_plain n Hw). fold (plainp d). rewrite Hp. reflexivity.
+  - destruct d; destruct n; try discriminate; reflexivity.
+Qed.
+
+Lemma str_in_In : forall x l, str_in x l = true <-> In x l.
+Proof.
+  induction l as [|y l IH]; [split; [discriminate|intros []]|]. cbn [str_in In]. split.
+  - intros H. apply orb_prop in H. destruct H as [H|H]; [left; apply String.eqb_eq in H; congruence|right; apply IH, H].
+  - intros [->|H]; [rewrite String.eqb_refl; reflexivity|]. apply IH in H. rewrite H. apply orb_true_r.
+Qed.
+
+(* one iteration of the loop of parse_passage_params on the printed parameter (with or without the blank that
+   follows a comma) *)
+Lemma ppp_step_print : forall (sp : bool) p acc seen names,
+  param_ok p = true -> str_in (pname p) names = false ->
+  (pdefault p = None -> seen = false) ->
+  ppp_step (acc, seen, names) ((if sp then " " else "") ++ print_param p)%string =
+  POk (p :: acc, match pdefault p with Some _ => true | None => seen end, pname p :: names).
+Proof.
+  intros sp [n d] acc seen names Hok Hnin Hseen.
+  destruct (print_param_facts _ Hok) as [Hpl [Hne [Hst _]]].
+  unfold param_ok in Hok. cbn [pname pdefault] in *.
+  do 2 (apply andb_prop in Hok; destruct Hok as [Hok ?]). rename Hok into Hid. rename H into Hd. rename H0 into Hkw.
+  apply negb_true_iff in Hkw. destruct (identifier_facts n Hid) as [Hnn [Hw Hns]].
+  unfold ppp_step.
+  assert (S1 : strip ((if sp then " " else "") ++ print_param (mkParam n d))%string = print_param (mkParam n d)).
+  { destruct sp; [rewrite strip_pad_l|cbn [append]]; exact Hst. }
+  rewrite S1, Hne. cbn [negb]. unfold print_param in *. cbn [pname pdefault] in *. destruct d as [d|].
+  - destruct (default_ok_parts d Hd) as [Ht _].
+    change (n ++ "=" ++ d)%string with (n ++ String "=" d)%string.
+    rewrite (find_char_app n "=" d (word_no_eq n Hw)). rewrite take_app.
+    replace (S (String.length n)) with (String.length n + 1) by lia. rewrite drop_app_plus.
+    change (drop 1 (String "=" d)) with d.
+    rewrite (strip_fixed n Hns (word_rstrip n Hw)), (trimmed_eq d Ht). rewrite Hid, Hkw, Hnin. reflexivity.
+  - rewrite (find_char_none n "=" (word_no_eq n Hw)). rewrite (Hseen eq_refl), Hid, Hkw, Hnin. reflexivity.
+Qed.
+
+Lemma ppp_loop_print : forall ps acc seen names,
+  forallb param_ok ps = true -> required_first ps seen = true ->
+  NoDup (map pname ps) -> (forall p, In p ps -> ~ In (pname p) names) ->
+  exists seen' names',
+    ppp_loop (map (fun x => (" " ++ x)%string) (map print_param ps)) (acc, seen, names) =
+    POk ((rev ps ++ acc)%list, seen', names').
+Proof.
+  induction ps as [|p ps IH]; intros acc seen names Hok Hreq Hnd Hnin; [eexists _, _; reflexivity|].
+  cbn [forallb] in Hok. apply andb_prop in Hok. destruct Hok as [Hp Hok].
+  cbn [map] in Hnd. inversion Hnd as [|? ? Hp_nin Hnd']; subst.
+  cbn [map ppp_loop].
+  assert (Hs : pdefault p = None -> seen = false).
+  { intros E. cbn [required_first] in Hreq. rewrite E in Hreq. apply andb_prop in Hreq. destruct Hreq as [Hr _].
+    apply negb_true_iff in Hr. exact Hr. }
+  assert (Hn : str_in (pname p) names = false).
+  { apply not_true_iff_false. intros E. apply str_in_In in E. apply (Hnin p (or_introl eq_refl)), E. }
+  rewrite (ppp_step_print true p acc seen names Hp Hn Hs). cbn [pbind].
+  destruct (IH (p :: acc) (match pdefault p with Some _ => true | None => seen end) (pname p :: names) Hok) as [s' [n' E]].
+  - cbn [required_first] in Hreq. destruct (pdefault p); [exact Hreq|apply andb_prop in Hreq; tauto].
+  - exact Hnd'.
+  - intros q Hq [E|E]; [apply Hp_nin; rewrite E; apply in_map, Hq|apply (Hnin q (or_intror Hq)), E].
+  - exists s', n'. rewrite E. cbn [rev]. rewrite <- List.app_assoc. reflexivity.
+Qed.
+
+Lemma names_nodup_NoDup0 : forall l, names_nodup l = true -> NoDup l.
+Proof.
+  induction l as [|x r IH]; intros H; constructor.
+  - cbn [names_nodup] in H. apply andb_prop in H. destruct H as [H _]. apply negb_true_iff in H.
+    intros Hin. apply str_in_In in Hin. congruence.
+  - apply IH. cbn [names_nodup] in H. apply andb_prop in H. tauto.
+Qed.
+
+Lemma plain_paren_free : forall s, plainp s = true -> paren_free s = true.
+Proof.
+  intros s H. eapply all_chars_imp; [|exact H]. intros c Hc. unfold plain_char in Hc.
+  apply negb_true_iff in Hc. apply orb_false_elim in Hc. destruct Hc as [Hc Hcl]. apply orb_false_elim in Hc.
+  destruct Hc as [_ Ho]. unfold is_opener in Ho. unfold is_closer in Hcl.
+  destruct (ch c "("); [discriminate|]. destruct (ch c ")"); [discriminate|]. reflexivity.
+Qed.
+
+Lemma join_facts : forall Qs X,
+  paren_free X = true -> starts_ns X = true -> rstrip X = X ->
+  Forall (fun q => paren_free q = true /\ starts_ns q = true /\ rstrip q = q) Qs ->
+  paren_free (join ", " (X :: Qs)) = true /\ starts_ns (join ", " (X :: Qs)) = true /\
+  rstrip (join ", " (X :: Qs)) = join ", " (X :: Qs).
+Proof.
+  induction Qs as [|Q Qs IH]; intros X H1 H2 H3 HQ; [repeat split; assumption|].
+  inversion HQ as [|? ? [Q1 [Q2 Q3]] HQ']; subst. destruct (IH Q Q1 Q2 Q3 HQ') as [J1 [J2 J3]].
+  change (join ", " (X :: Q :: Qs)) with (X ++ ", " ++ join ", " (Q :: Qs))%string.
+  split; [|split].
+  - unfold paren_free in *. rewrite !all_chars_app, H1, J1. reflexivity.
+  - apply starts_ns_app, H2.
+  - assert (N : join ", " (Q :: Qs) <> ""%string) by (intros E; rewrite E in J2; discriminate).
+    rewrite rstrip_app_ne.
+    + f_equal. rewrite rstrip_app_ne; [rewrite J3; reflexivity|rewrite J3; exact N].
+    + rewrite rstrip_app_ne; [|rewrite J3; exact N]. discriminate.
+Qed.
+
+Lemma params_print_facts : forall p0 ps', params_ok (p0 :: ps') = true ->
+  paren_free (join ", " (map print_param (p0 :: ps'))) = true /\
+  trimmed (join ", " (map print_param (p0 :: ps'))) = true /\
+  nonempty (join ", " (map print_param (p0 :: ps'))) = true /\
+  parse_passage_params (join ", " (map print_param (p0 :: ps'))) = POk (p0 :: ps').
+Proof.
+  intros p0 ps' H. set (P := join ", " (map print_param (p0 :: ps'))).
+  unfold params_ok in H. do 2 (apply andb_prop in H; destruct H as [H ?]).
+  rename H into Hall. rename H0 into Hreq. rename H1 into Hnd. apply names_nodup_NoDup0 in Hnd.
+  cbn [forallb] in Hall. apply andb_prop in Hall. destruct Hall as [Hp0 Hall].
+  destruct (print_param_facts p0 Hp0) as [A0 [B0 [C0 [D0 E0]]]].
+  assert (Fq : Forall (fun q => paren_free q = true /\ starts_ns q = true /\ rstrip q = q) (map print_param ps')).
+  { apply Forall_forall. intros x Hx. apply in_map_iff in Hx. destruct Hx as [p [<- Hp]].
+    rewrite forallb_forall in Hall. destruct (print_param_facts p (Hall p Hp)) as [A [_ [_ [D E]]]].
+    split; [apply plain_paren_free, A|split; assumption]. }
+  destruct (join_facts (map print_param ps') (print_param p0) (plain_paren_free _ A0) D0 E0 Fq) as [J1 [J2 J3]].
+  change (join ", " (print_param p0 :: map print_param ps')) with P in J1, J2, J3.
+  assert (PN : nonempty P = true) by (destruct P; [discriminate|reflexivity]).
+  split; [exact J1|split; [|split; [exact PN|]]].
+  - unfold trimmed. rewrite (strip_fixed P J2 J3). apply String.eqb_refl.
+  - assert (Fpl : Forall (fun x => plainp x = true) (map print_param ps') /\
+                  Forall (fun x => nonempty x = true) (map print_param ps')).
+    { split; apply Forall_forall; intros x Hx; apply in_map_iff in Hx; destruct Hx as [p [<- Hp]];
+        rewrite forallb_forall in Hall; destruct (print_param_facts p (Hall p Hp)) as [A [B _]]; assumption. }
+    destruct Fpl as [Fpl Fne].
+    unfold parse_passage_params. rewrite PN. cbn [negb]. unfold split_on_commas, P. cbn [map].
+    rewrite (soc_join _ (print_param p0) [] "" A0 Fpl B0 Fne). cbn [rev app ppp_loop].
+    change ("" ++ print_param p0)%string with (print_param p0).
+    cbn [map] in Hnd. inversion Hnd as [|? ? Hn0 Hnd']; subst.
+    pose proof (ppp_step_print false p0 [] false [] Hp0 eq_refl (fun _ => eq_refl)) as S0. cbn [append] in S0.
+    rewrite S0. cbn [pbind].
+    destruct (ppp_loop_print ps' [p0] (match pdefault p0 with Some _ => true | None => false end) [pname p0] Hall) as [s' [n' E]].
+    + cbn [required_first] in Hreq. destruct (pdefault p0); [exact Hreq|apply andb_prop in Hreq; tauto].
+    + exact Hnd'.
+    + intros q Hq [E|[]]. apply Hn0. rewrite E. apply in_map, Hq.
+    + rewrite E. cbn [pbind]. rewrite rev_app_distr, rev_involutive. reflexivity.
+Qed.
+
+(* ------------------------------------------------------------------------------------------- *)
 (* the header line                                                                              *)
 (* ------------------------------------------------------------------------------------------- *)
 Definition params_part (ps : list param) : string :=
@@ -1788,13 +2016,13 @@ Lemma extract_params_print : forall name ps, header_ok name ps = true ->
   extract_passage_params (name ++ params_part ps) =
   (name, match ps with [] => "" | _ => join ", " (map print_param ps) end).
 Proof.
-  intros name ps H Hrs. unfold header_ok in H. apply andb_prop in H. destruct H as [Hn Hp].
+  intros name ps H Hrs. unfold header_ok in H. apply andb_prop in H. destruct H as [Hn Hp0].
   pose proof (valid_name_no_lparen name Hn) as Hnl.
   pose proof (valid_name_starts_ns name Hn) as Hns.
   unfold extract_passage_params. destruct ps as [|p0 ps'].
   - cbn [params_part]. rewrite sapp_nil_r. rewrite (find_char_none name "(" Hnl). reflexivity.
-  - set (P := join ", " (map print_param (p0 :: ps'))) in *.
-    do 3 (apply andb_prop in Hp; destruct Hp as [Hp ?]). rename H1 into Htr. rename Hp into Hpf.
+  - destruct (params_print_facts p0 ps' Hp0) as [Hpf [Htr _]].
+    set (P := join ", " (map print_param (p0 :: ps'))) in *.
     assert (E : params_part (p0 :: ps') = String "(" (P ++ ")")) by reflexivity. rewrite E in *.
     rewrite (find_char_app name "(" (P ++ ")") Hnl). rewrite drop_app.
     rewrite match_paren_open, (match_paren_run P ")" _ _ Hpf).
@@ -1871,9 +2099,7 @@ Proof.
     rewrite (parse_tags_clean name Hnc). rewrite (validate_name_ok name i Hn). cbn [pbind].
     unfold header_ok in Hok. apply andb_prop in Hok. destruct Hok as [_ Hp].
     destruct ps as [|p0 ps']; [reflexivity|].
-    do 3 (apply andb_prop in Hp; destruct Hp as [Hp ?]). rewrite H1.
-    destruct (parse_passage_params (join ", " (map print_param (p0 :: ps')))) as [l| | |] eqn:E; try discriminate.
-    rewrite (params_eqb_eq _ _ H0). reflexivity. }
+    destruct (params_print_facts p0 ps' Hp) as [_ [_ [Pn Pp]]]. rewrite Pn, Pp. reflexivity. }
   destruct (strip_inline_comment (strip H)) as [ph cm].
   destruct (extract_passage_params ph) as [nwp pstr].
   destruct (parse_tags nwp) as [pn pt].
@@ -2308,7 +2534,7 @@ Definition passage_steps (p : spassage) : Prop :=
 Lemma passage_ok_parts : forall p, passage_ok pp p = true ->
   header_ok (sp_name p) (sp_params p) = true /\ sections_ok (sp_body p) 0 (sp_choices p) = true.
 Proof.
-  intros p H. unfold passage_ok in H. do 3 (apply andb_prop in H; destruct H as [H ?]). split; assumption.
+  intros p H. unfold passage_ok in H. do 4 (apply andb_prop in H; destruct H as [H ?]). split; assumption.
 Qed.
 
 Lemma passage_run : forall p pre post st,
@@ -2536,7 +2762,7 @@ Proof. intros s. unfold split_char. rewrite join_split_aux. reflexivity. Qed.
 
 Lemma blank_to_empty_id : forall l, py_line_ok l = true -> PB.blank_to_empty l = l.
 Proof.
-  intros l H. unfold py_line_ok in H. apply andb_prop in H. destruct H as [H _].
+  intros l H. unfold py_line_ok in H. do 4 (apply andb_prop in H; destruct H as [H _]).
   unfold PB.blank_to_empty. destruct l as [|c r]; [reflexivity|]. cbn [nonempty negb orb] in H.
   apply negb_true_iff in H. pose proof (all_space_false_strip _ H) as N.
   change PB.nonempty with nonempty. rewrite N. reflexivity.
@@ -2594,7 +2820,8 @@ Proof.
     cbn [List.length]. rewrite app_length. cbn [List.length]. f_equal. f_equal. lia.
   - unfold py_ok in H. cbv zeta in H. apply andb_prop in H. destruct H as [H _].
     apply Forall_forall. intros l Hl. rewrite forallb_forall in H. specialize (H l Hl).
-    unfold py_line_ok in H. apply andb_prop in H. destruct H as [_ H]. apply negb_true_iff in H. exact H.
+    unfold py_line_ok in H. do 3 (apply andb_prop in H; destruct H as [H _]).
+    apply andb_prop in H. destruct H as [_ H]. apply negb_true_iff in H. exact H.
 Qed.
 
 Section PyItem.
@@ -2884,7 +3111,7 @@ Proof.
 Qed.
 
 Lemma items_ok_of_passage : forall p, passage_ok pp p = true -> forallb (item_ok pp true) (sp_body p) = true.
-Proof. intros p H. unfold passage_ok in H. do 3 (apply andb_prop in H; destruct H as [H ?]). assumption. Qed.
+Proof. intros p H. unfold passage_ok in H. do 4 (apply andb_prop in H; destruct H as [H ?]). assumption. Qed.
 
 Lemma printable_passages : forall s, printable pp is_call s = true -> forallb (passage_ok pp) (ss_passages s) = true.
 Proof. intros s H. unfold printable in H. do 5 (apply andb_prop in H; destruct H as [H ?]). assumption. Qed.
@@ -2903,6 +3130,2349 @@ Proof.
 Qed.
 
 End Real.
+
+(* ===== part 13 ===== *)
+Local Open Scope string_scope.
+Local Open Scope nat_scope.
+Local Open Scope list_scope.
+
+(* ------------------------------------------------------------------------------------------- *)
+(* (iv) @if / @for blocks: printing equations                                                   *)
+(* ------------------------------------------------------------------------------------------- *)
+Lemma print_item_if : forall brs, print_item (IIf brs) = print_branches brs true ++ ["@endif"].
+Proof.
+  intros brs. reflexivity.
+Qed.
+
+Lemma print_item_for : forall v c body chs,
+  print_item (IFor v c body chs) =
+  ("@for " ++ v ++ " in " ++ c ++ ":")%string :: map indent_nonempty (print_items body) ++
+  map indent_always (print_choices chs) ++ ["@endfor"].
+Proof. reflexivity. Qed.
+
+Definition c_branches (brs : list (string * list item * list schoice)) : list branch :=
+  map (fun b => match b with (c, body, chs) => Branch c (c_items body) (map (c_choice 0) chs) end) brs.
+
+Lemma c_item_if : forall brs, c_item (IIf brs) = [TCond (c_branches brs)].
+Proof. exact ReferenceProofs.c_item_if. Qed.
+
+Lemma print_items_app : forall a b, print_items (a ++ b) = print_items a ++ print_items b.
+Proof. induction a as [|x a IH]; intros b; [reflexivity|]. cbn [app print_items]. rewrite IH, List.app_assoc. reflexivity. Qed.
+
+(* ------------------------------------------------------------------------------------------- *)
+(* indentation prefixes                                                                         *)
+(* ------------------------------------------------------------------------------------------- *)
+(* "    " * k in front of every non-empty line *)
+Definition indp (q : string) (l : string) : string := match l with EmptyString => l | _ => (q ++ l)%string end.
+
+(* a prefix: blanks only *)
+Definition pfx (q : string) : Prop := all_space q = true /\ clean q = true.
+
+Lemma pfx_nil : pfx "".
+Proof. split; reflexivity. Qed.
+
+Lemma all_space_app : forall a b, all_space (a ++ b)%string = all_space a && all_space b.
+Proof. induction a as [|c a IH]; intros b; [reflexivity|]. simpl. rewrite IH, andb_assoc. reflexivity. Qed.
+
+Lemma pfx_ind4 : forall q, pfx q -> pfx (q ++ ind4)%string.
+Proof.
+  intros q [H1 H2]. split.
+  - rewrite all_space_app, H1. reflexivity.
+  - rewrite clean_app, H2. reflexivity.
+Qed.
+
+Lemma indent_nonempty_indp : forall l, indent_nonempty l = indp ind4 l.
+Proof. reflexivity. Qed.
+
+Lemma indp_indp : forall q l, indp q (indp ind4 l) = indp (q ++ ind4)%string l.
+Proof. intros q [|c r]; [reflexivity|]. cbn [indp]. unfold ind4. cbn [append]. rewrite sapp_assoc. reflexivity. Qed.
+
+Lemma indp_always : forall q l, indp q (indent_always l) = ((q ++ ind4) ++ l)%string.
+Proof. intros q l. unfold indent_always, ind4. cbn [append indp]. rewrite sapp_assoc. reflexivity. Qed.
+
+Lemma map_indp_nonempty : forall q L, map (indp q) (map indent_nonempty L) = map (indp (q ++ ind4)%string) L.
+Proof. intros q L. rewrite map_map. apply map_ext. intros l. rewrite indent_nonempty_indp. apply indp_indp. Qed.
+
+Lemma map_indp_always : forall q L, map (indp q) (map indent_always L) = map (fun l => ((q ++ ind4) ++ l)%string) L.
+Proof. intros q L. rewrite map_map. apply map_ext. intros l. apply indp_always. Qed.
+
+Lemma indp_ne : forall q l, l <> ""%string -> indp q l = (q ++ l)%string.
+Proof. intros q [|c r] H; [congruence|reflexivity]. Qed.
+
+Lemma indp_nil_prefix : forall l, indp "" l = l.
+Proof. intros [|c r]; reflexivity. Qed.
+
+(* a line as written, without its prefix: clean, no trailing white space *)
+Definition uline_ok (l : string) : Prop := clean l = true /\ rstrip l = l.
+
+Lemma uline_of_indp : forall q l, line_ok (indp q l) = true -> uline_ok l.
+Proof.
+  intros q [|c r] H; [split; reflexivity|]. cbn [indp] in H. destruct (line_ok_parts _ H) as [H1 H2].
+  split.
+  - rewrite clean_app in H1. apply andb_prop in H1. tauto.
+  - apply (rstrip_suffix q); [discriminate|exact H2].
+Qed.
+
+Lemma ulines_of_map : forall q L, lines_ok (map (indp q) L) -> Forall uline_ok L.
+Proof.
+  intros q L H. apply Forall_forall. intros l Hl. unfold lines_ok in H. rewrite Forall_forall in H.
+  apply (uline_of_indp q). apply H, in_map, Hl.
+Qed.
+
+Lemma ulines_of_always : forall L, Forall uline_ok (map indent_always L) -> Forall uline_ok L.
+Proof.
+  intros L H. apply Forall_forall. intros l Hl. rewrite Forall_forall in H.
+  destruct (H (indent_always l) (in_map _ _ _ Hl)) as [H1 H2]. unfold indent_always in *. split.
+  - rewrite clean_app in H1. apply andb_prop in H1. tauto.
+  - destruct l as [|c r]; [reflexivity|]. apply (rstrip_suffix ind4); [discriminate|exact H2].
+Qed.
+
+Lemma ulines_of_nonempty : forall L, Forall uline_ok (map indent_nonempty L) -> Forall uline_ok L.
+Proof.
+  intros L H. apply Forall_forall. intros l Hl. rewrite Forall_forall in H.
+  destruct (H (indent_nonempty l) (in_map _ _ _ Hl)) as [H1 H2]. destruct l as [|c r]; [split; reflexivity|].
+  cbn [indent_nonempty] in *. split.
+  - rewrite clean_app in H1. apply andb_prop in H1. tauto.
+  - apply (rstrip_suffix ind4); [discriminate|exact H2].
+Qed.
+
+(* strip of a prefixed line *)
+Lemma strip_pfx : forall q l, pfx q -> starts_ns l = true -> rstrip l = l -> strip (q ++ l)%string = l.
+Proof. intros q l [Hq _] H1 H2. rewrite (strip_app_ws q l Hq). apply strip_fixed; assumption. Qed.
+
+Lemma clean_pfx : forall q l, pfx q -> clean l = true -> clean (q ++ l)%string = true.
+Proof. intros q l [_ Hq] H. rewrite clean_app, Hq, H. reflexivity. Qed.
+
+(* ------------------------------------------------------------------------------------------- *)
+(* dedenting prefixed lines                                                                     *)
+(* ------------------------------------------------------------------------------------------- *)
+(* the first non-empty line starts at column 0 *)
+Fixpoint first_ns (L : list string) : Prop :=
+  match L with
+  | [] => True
+  | l :: r => match l with EmptyString => first_ns r | _ => starts_ns l = true end
+  end.
+
+(* every line is empty or not blank *)
+Definition solid (l : string) : Prop := l = ""%string \/ is_blank l = false.
+
+Lemma starts_ns_solid : forall l, starts_ns l = true -> is_blank l = false /\ indent_of l = 0.
+Proof.
+  intros [|c r] Hl; [discriminate|]. simpl in Hl. apply negb_true_iff in Hl. unfold is_blank. simpl. rewrite Hl.
+  split; [reflexivity|]. rewrite indent_of_cons, Hl. reflexivity.
+Qed.
+
+Lemma base_indent_indp : forall q L, pfx q -> Forall solid L -> first_ns L ->
+  base_indent (map (indp q) L) = None \/ base_indent (map (indp q) L) = Some (String.length q).
+Proof.
+  intros q L [Hq _]. induction L as [|l r IH]; intros Hs Hf; [left; reflexivity|].
+  inversion Hs as [|? ? Hl Hr]; subst. destruct l as [|c s].
+  - cbn [map indp base_indent]. replace (is_blank "") with true by reflexivity. apply IH; [exact Hr|exact Hf].
+  - right. cbn [first_ns] in Hf. cbn [map indp base_indent]. destruct (starts_ns_solid _ Hf) as [E1 E2].
+    rewrite (is_blank_app q _ Hq), E1, (indent_of_app q _ Hq), E2, Nat.add_0_r. reflexivity.
+Qed.
+
+Lemma dedent_indp : forall q L, pfx q -> Forall solid L -> first_ns L ->
+  detect_and_strip_indentation (map (indp q) L) = L.
+Proof.
+  intros q L Hq Hs Hf. unfold detect_and_strip_indentation.
+  destruct (base_indent_indp q L Hq Hs Hf) as [E|E]; rewrite E.
+  - (* all blank: every line is empty *)
+    assert (A : forall M, Forall solid M -> base_indent (map (indp q) M) = None -> map (indp q) M = M).
+    { induction M as [|l r IH]; intros HM Hb; [reflexivity|]. inversion HM as [|? ? Hl Hr]; subst.
+      cbn [map base_indent] in Hb |- *. destruct l as [|c s].
+      - cbn [indp] in *. replace (is_blank "") with true in Hb by reflexivity. rewrite (IH Hr Hb). reflexivity.
+      - exfalso. cbn [indp] in Hb. destruct Hq as [Hq _]. rewrite (is_blank_app q _ Hq) in Hb.
+        destruct Hl as [Hl|Hl]; [discriminate|]. rewrite Hl in Hb. discriminate. }
+    apply A; assumption.
+  - rewrite map_map. apply map_id_Forall. eapply Forall_impl; [|exact Hs]. intros l Hl. cbv beta.
+    destruct l as [|c s]; [reflexivity|]. cbn [indp]. destruct Hq as [Hq _].
+    unfold dedent_line. rewrite (is_blank_app q _ Hq). destruct Hl as [Hl|Hl]; [discriminate|]. rewrite Hl.
+    rewrite (indent_of_app q _ Hq).
+    replace (String.length q <=? String.length q + indent_of (String c s)) with true by (symmetry; apply Nat.leb_le; lia).
+    rewrite <- (Nat.add_0_r (String.length q)) at 1. apply drop_app_plus.
+Qed.
+
+Lemma uline_solid : forall l, uline_ok l -> solid l.
+Proof.
+  intros [|c r] [_ H]; [left; reflexivity|]. right. unfold is_blank.
+  destruct (all_space (String c r)) eqn:E; [|reflexivity]. exfalso.
+  assert (A : forall s, all_space s = true -> rstrip s = ""%string).
+  { induction s as [|x s IH]; intros Hs; [reflexivity|]. simpl in Hs. apply andb_prop in Hs. destruct Hs as [Hx Hs].
+    simpl. rewrite (IH Hs), Hx. reflexivity. }
+  rewrite (A _ E) in H. discriminate.
+Qed.
+
+(* ------------------------------------------------------------------------------------------- *)
+(* text lines in a block: _append_text_lines                                                    *)
+(* ------------------------------------------------------------------------------------------- *)
+Definition textish (it : item) : bool := match it with IText _ _ | IBlank => true | _ => false end.
+
+Notation rlf := ParseBlocksInst.real_linefns.
+
+Lemma text_line_parts : forall ps glue, text_line_ok ps glue = true ->
+  uline_ok (print_pieces ps ++ (if glue then "<>" else ""))%string ->
+  pieces_ok false ps = true /\ nest ps <= max_inline_depth /\ clean (print_pieces ps) = true /\
+  (exists c r, print_pieces ps = String c r /\ bad_start c = false) /\
+  (glue = false -> endswith (print_pieces ps) "<>" = false /\ rstrip (print_pieces ps) = print_pieces ps).
+Proof.
+  intros ps glue Hok [Hcl Hrs]. unfold text_line_ok in Hok. do 3 (apply andb_prop in Hok; destruct Hok as [Hok ?]).
+  apply Nat.leb_le in H1. rewrite clean_app in Hcl. apply andb_prop in Hcl. destruct Hcl as [Hcl _].
+  split; [exact Hok|split; [exact H1|split; [exact Hcl|split]]].
+  - apply plain_start_cons, H0.
+  - intros ->. split.
+    + cbn [orb] in H. apply negb_true_iff in H. exact H.
+    + rewrite sapp_nil_r in Hrs. exact Hrs.
+Qed.
+
+Lemma glue_split_glued : forall P, PB.glue_split (P ++ "<>")%string = Some P.
+Proof.
+  intros P. unfold PB.glue_split.
+  assert (E : rstrip (P ++ "<>")%string = (P ++ "<>")%string) by (rewrite rstrip_app_ne by discriminate; reflexivity).
+  rewrite E, endswith_app, slen_app. cbn [String.length].
+  replace (String.length P + 2 - 2) with (String.length P) by lia. rewrite take_app. reflexivity.
+Qed.
+
+(* one text / blank line through content_line_glue *)
+Lemma content_line_glue_text : forall ps glue content, text_line_ok ps glue = true ->
+  uline_ok (print_pieces ps ++ (if glue then "<>" else ""))%string ->
+  PB.content_line_glue rlf content (print_pieces ps ++ (if glue then "<>" else ""))%string =
+  POk (content ++ c_item (IText ps glue)).
+Proof.
+  intros ps glue content Hok Hu. destruct (text_line_parts ps glue Hok Hu) as [Hp [Hn [Hc [_ Hg]]]].
+  unfold PB.content_line_glue. destruct glue.
+  - rewrite glue_split_glued. cbn [PB.lf_content rlf]. rewrite (parse_content_line_pieces false ps Hp Hc Hn).
+    cbn [pbind c_item]. rewrite List.app_nil_r. reflexivity.
+  - rewrite sapp_nil_r. destruct (Hg eq_refl) as [G1 G2]. unfold PB.glue_split. rewrite G2, G1.
+    cbn [PB.lf_content rlf]. rewrite (parse_content_line_pieces false ps Hp Hc Hn). cbn [pbind c_item]. reflexivity.
+Qed.
+
+Lemma content_line_glue_blank : forall content,
+  PB.content_line_glue rlf content "" = POk (content ++ c_item IBlank).
+Proof. intros. reflexivity. Qed.
+
+(* the items of a run of text / blank lines *)
+Definition text_run (T : list item) : Prop :=
+  Forall (fun it => textish it = true /\ (forall ps g, it = IText ps g -> text_line_ok ps g = true)) T.
+
+Lemma flush_glue_lines_run : forall T content, text_run T -> Forall uline_ok (print_items T) ->
+  PB.flush_glue_lines rlf content (print_items T) = POk (content ++ c_items T).
+Proof.
+  induction T as [|it T IH]; intros content HT Hu.
+  - cbn [print_items PB.flush_glue_lines c_items]. rewrite List.app_nil_r. reflexivity.
+  - inversion HT as [|? ? [Ht Hok] HT']; subst. cbn [print_items] in Hu. apply Forall_app in Hu. destruct Hu as [Hu1 Hu2].
+    cbn [print_items c_items]. destruct it; try discriminate.
+    + cbn [print_item app PB.flush_glue_lines]. inversion Hu1 as [|? ? Hl _]; subst.
+      rewrite (content_line_glue_text ps glue content (Hok _ _ eq_refl) Hl). cbn [pbind].
+      rewrite (IH _ HT' Hu2). rewrite <- List.app_assoc. reflexivity.
+    + cbn [print_item app PB.flush_glue_lines]. rewrite content_line_glue_blank. cbn [pbind].
+      rewrite (IH _ HT' Hu2). rewrite <- List.app_assoc. reflexivity.
+Qed.
+
+Lemma text_run_first_ns : forall T, text_run T -> Forall uline_ok (print_items T) -> first_ns (print_items T).
+Proof.
+  induction T as [|it T IH]; intros HT Hu; [exact I|].
+  inversion HT as [|? ? [Ht Hok] HT']; subst. cbn [print_items] in *. apply Forall_app in Hu. destruct Hu as [Hu1 Hu2].
+  destruct it; try discriminate.
+  - cbn [print_item app]. inversion Hu1 as [|? ? Hl _]; subst.
+    destruct (text_line_parts ps glue (Hok _ _ eq_refl) Hl) as [_ [_ [_ [[c [r [E Hc]]] _]]]].
+    rewrite E. cbn [append first_ns]. destruct (bad_start_facts c Hc) as [H0 _]. simpl. rewrite H0. reflexivity.
+  - cbn [print_item app first_ns]. apply IH; assumption.
+Qed.
+
+(* the flush of the pending text lines of a branch (prefix q) *)
+Lemma flush_glue_run : forall q T content, pfx q -> text_run T -> Forall uline_ok (print_items T) ->
+  PB.flush_glue rlf content (map (indp q) (print_items T)) = POk (content ++ c_items T).
+Proof.
+  intros q T content Hq HT Hu. unfold PB.flush_glue.
+  rewrite dedent_indp; [apply flush_glue_lines_run; assumption|exact Hq| |apply text_run_first_ns; assumption].
+  eapply Forall_impl; [|exact Hu]. apply uline_solid.
+Qed.
+
+(* ===== part 14 ===== *)
+Local Open Scope string_scope.
+Local Open Scope nat_scope.
+Local Open Scope list_scope.
+
+
+(* ------------------------------------------------------------------------------------------- *)
+(* @py: at any indentation                                                                      *)
+(* ------------------------------------------------------------------------------------------- *)
+Lemma base0_first_ns : forall L, Forall solid L ->
+  match base_indent L with Some 0 => True | None => True | _ => False end -> first_ns L.
+Proof.
+  induction L as [|l r IH]; intros Hs Hb; [exact I|]. inversion Hs as [|? ? Hl Hr]; subst.
+  destruct l as [|c s].
+  - cbn [first_ns]. apply IH; [exact Hr|]. cbn [base_indent] in Hb. exact Hb.
+  - cbn [first_ns]. cbn [base_indent] in Hb. destruct Hl as [Hl|Hl]; [discriminate|]. rewrite Hl in Hb.
+    rewrite indent_of_cons in Hb. simpl. destruct (is_space c); [destruct Hb|reflexivity].
+Qed.
+
+Lemma py_code_solid : forall c, py_ok c = true ->
+  Forall solid (split_char c nlc) /\ first_ns (split_char c nlc) /\
+  Forall (fun l => String.eqb (strip l) "@endpy" = false) (split_char c nlc).
+Proof.
+  intros c H. unfold py_ok in H. cbv zeta in H. apply andb_prop in H. destruct H as [H1 H2].
+  assert (S : Forall solid (split_char c nlc)).
+  { apply Forall_forall. intros l Hl. rewrite forallb_forall in H1. specialize (H1 l Hl).
+    unfold py_line_ok in H1. do 4 (apply andb_prop in H1; destruct H1 as [H1 _]).
+    destruct l as [|x s]; [left; reflexivity|]. right. cbn [nonempty negb orb] in H1. apply negb_true_iff in H1. exact H1. }
+  split; [exact S|split].
+  - apply base0_first_ns; [exact S|]. destruct (base_indent (split_char c nlc)) as [[|n]|]; try exact I. discriminate.
+  - apply Forall_forall. intros l Hl. rewrite forallb_forall in H1. specialize (H1 l Hl).
+    unfold py_line_ok in H1. do 3 (apply andb_prop in H1; destruct H1 as [H1 _]).
+    apply andb_prop in H1. destruct H1 as [_ H1]. apply negb_true_iff in H1. exact H1.
+Qed.
+
+Lemma strip_indp : forall q l, pfx q -> strip (indp q l) = strip l.
+Proof. intros q [|c r] [Hq _]; [reflexivity|]. cbn [indp]. apply strip_app_ws, Hq. Qed.
+
+Lemma py_new_go_run_q : forall q start code acc k rest,
+  pfx q -> Forall (fun l => String.eqb (strip l) "@endpy" = false) code ->
+  PB.py_new_go true start (map (indp q) code ++ (q ++ "@endpy")%string :: rest) acc k =
+  POk (join PB.nl (map PB.blank_to_empty (detect_and_strip_indentation (acc ++ map (indp q) code))),
+       S (k + List.length code)).
+Proof.
+  intros q start code. induction code as [|l code IH]; intros acc k rest Hq H.
+  - cbn [map app PB.py_new_go]. destruct Hq as [Hq1 Hq2]. rewrite (strip_app_ws q "@endpy" Hq1).
+    replace (String.eqb (strip "@endpy") "@endpy") with true by reflexivity.
+    rewrite List.app_nil_r, Nat.add_0_r. reflexivity.
+  - inversion H as [|? ? Hl Hc]; subst. cbn [map app PB.py_new_go]. rewrite (strip_indp q l Hq), Hl.
+    rewrite (IH (acc ++ [indp q l]) (S k) rest Hq Hc). rewrite <- List.app_assoc. cbn [app List.length].
+    replace (S k + List.length code) with (k + S (List.length code)) by lia. reflexivity.
+Qed.
+
+Lemma py_block_at : forall q c pre post, pfx q -> py_ok c = true ->
+  PB.extract_python_block_v true (pre ++ map (indp q) (print_item (IPy c)) ++ post) (List.length pre) =
+  POk (c, List.length (print_item (IPy c))).
+Proof.
+  intros q c pre post Hq H. cbn [print_item]. set (code := split_char c nlc).
+  destruct (py_code_solid c H) as [Hs [Hf He]]. fold code in Hs, Hf, He.
+  replace (pre ++ map (indp q) (["@py:"] ++ code ++ ["@endpy"]) ++ post)
+    with (pre ++ (q ++ "@py:")%string :: (map (indp q) code ++ (q ++ "@endpy")%string :: post))
+    by (cbn [app map]; rewrite map_app; cbn [map indp]; rewrite <- List.app_assoc; reflexivity).
+  unfold PB.extract_python_block_v. rewrite nth_error_mid.
+  destruct Hq as [Hq1 Hq2]. rewrite (strip_app_ws q "@py:" Hq1).
+  replace (startswith (strip "@py:") "<<py") with false by reflexivity.
+  replace (startswith (strip "@py:") "@py") with true by reflexivity.
+  unfold PB.extract_py_new_syntax_v. rewrite nth_error_mid. rewrite (strip_app_ws q "@py:" Hq1).
+  replace (String.eqb (strip "@py:") "@py:") with true by reflexivity. cbn [negb].
+  rewrite skipn_mid. rewrite (py_new_go_run_q q _ code [] 1 post (conj Hq1 Hq2) He). cbn [app].
+  rewrite (dedent_indp q code (conj Hq1 Hq2) Hs Hf).
+  assert (B : map PB.blank_to_empty code = code).
+  { apply map_id_Forall. apply Forall_forall. intros l Hl. unfold py_ok in H. cbv zeta in H.
+    apply andb_prop in H. destruct H as [H _]. rewrite forallb_forall in H. apply blank_to_empty_id, H, Hl. }
+  rewrite B. unfold code. rewrite join_split. cbn [List.length]. rewrite app_length. cbn [List.length].
+  f_equal. f_equal. lia.
+Qed.
+
+(* ------------------------------------------------------------------------------------------- *)
+(* the lines of the single-line items, as the block extractors see them                         *)
+(* ------------------------------------------------------------------------------------------- *)
+Lemma stmt_line_facts : forall c, nonempty c = true -> trimmed c = true -> uline_ok ("~ " ++ c)%string ->
+  starts_ns ("~ " ++ c)%string = true /\ strip c = c /\ clean c = true.
+Proof.
+  intros c Hn Ht [Hc _]. split; [reflexivity|split; [apply trimmed_eq, Ht|]].
+  rewrite clean_app in Hc. apply andb_prop in Hc. tauto.
+Qed.
+
+Lemma py_statement_single : forall lines i c, stmt_ok (mkPyparse (fun _ => true) (fun _ => None)) c = true ->
+  clean c = true ->
+  PB.py_statement rlf lines i c = (c, 1).
+Proof.
+  intros lines i c H Hc. unfold stmt_ok in H. do 3 (apply andb_prop in H; destruct H as [H ?]).
+  apply negb_true_iff in H1. unfold PB.py_statement. rewrite (trimmed_eq c H2), (sic_clean c Hc). cbn [fst PB.lf_emx rlf].
+  apply emx_single; [apply trimmed_eq, H2|exact H1].
+Qed.
+
+Lemma stmt_ok_weaken : forall pp c, stmt_ok pp c = true ->
+  nonempty c = true /\ trimmed c = true /\ ends_opener c = false.
+Proof.
+  intros pp c H. unfold stmt_ok in H. do 3 (apply andb_prop in H; destruct H as [H ?]).
+  apply negb_true_iff in H1. repeat split; assumption.
+Qed.
+
+Lemma py_statement_one : forall lines i c, trimmed c = true -> ends_opener c = false -> clean c = true ->
+  PB.py_statement rlf lines i c = (c, 1).
+Proof.
+  intros lines i c H2 H1 Hc. unfold PB.py_statement. rewrite (trimmed_eq c H2), (sic_clean c Hc).
+  cbn [fst PB.lf_emx rlf]. apply emx_single; [apply trimmed_eq, H2|exact H1].
+Qed.
+
+(* jump *)
+Lemma jump_of_print : forall t a, valid_passage_pattern t = true -> paren_free a = true ->
+  uline_ok ("-> " ++ t ++ print_args a)%string ->
+  PB.jump_of rlf ("-> " ++ t ++ print_args a)%string = Some (t, a).
+Proof.
+  intros t a Ht Ha [Hc Hr]. set (X := (t ++ print_args a)%string) in *.
+  assert (HX : starts_ns X = true) by (apply starts_ns_app, valid_name_starts_ns, Ht).
+  assert (XN : X <> ""%string) by (intros E; rewrite E in HX; discriminate).
+  assert (HXr : rstrip X = X) by (apply (rstrip_suffix "-> "); assumption).
+  unfold PB.jump_of. rewrite (sic_clean _ Hc). cbn [fst].
+  rewrite (strip_fixed ("-> " ++ X)%string eq_refl Hr). unfold PB.match_jump.
+  replace (startswith ("-> " ++ X)%string "->") with true by reflexivity.
+  change (drop 2 ("-> " ++ X)%string) with (" " ++ X)%string. change (lstrip (" " ++ X)%string) with (lstrip X).
+  rewrite (lstrip_starts_ns X HX). assert (N : PB.nonempty X = true) by (destruct X; [congruence|reflexivity]).
+  rewrite N, (strip_fixed X HX HXr). cbn [PB.lf_eta rlf]. unfold X.
+  rewrite (eta_print t a (valid_name_no_lparen t Ht) Ha). reflexivity.
+Qed.
+
+(* @render through parse_render_line without line context, on the prefixed line *)
+Lemma render_line_print : forall q n a, pfx q -> render_ok n a = true ->
+  uline_ok ("@render " ++ n ++ "(" ++ a ++ ")")%string ->
+  parse_render_line false (q ++ "@render " ++ n ++ "(" ++ a ++ ")")%string = POk (Some (TRender n a None)).
+Proof.
+  intros q n a Hq Hok [Hc Hr]. set (X := (n ++ "(" ++ a ++ ")")%string) in *.
+  unfold parse_render_line. rewrite (sic_clean _ (clean_pfx q _ Hq Hc)).
+  rewrite (strip_pfx q ("@render " ++ X)%string Hq eq_refl Hr).
+  replace (startswith ("@render " ++ X)%string "@render") with true by reflexivity. cbn [negb].
+  change (drop 7 ("@render " ++ X)%string) with (" " ++ X)%string.
+  replace (startswith (" " ++ X)%string ":") with false by reflexivity.
+  assert (HX : starts_ns X = true).
+  { unfold render_ok in Hok. apply andb_prop in Hok. destruct Hok as [Hok _]. apply andb_prop in Hok.
+    destruct Hok as [N1 N2]. apply starts_ns_app, word_starts_ns; assumption. }
+  assert (XN : X <> ""%string) by (intros E; rewrite E in HX; discriminate).
+  assert (HXs : strip (" " ++ X)%string = X).
+  { rewrite strip_pad_l. apply strip_fixed; [exact HX|]. apply (rstrip_suffix "@render "); assumption. }
+  rewrite HXs. assert (NE : nonempty X = true) by (destruct X; [congruence|reflexivity]).
+  rewrite NE. unfold X. rewrite (render_directive_print n a Hok). reflexivity.
+Qed.
+
+Lemma input_line_print : forall q attrs, pfx q -> input_ok attrs = true ->
+  uline_ok ("@input name=" ++ String dquote (input_name attrs ++ String dquote ""))%string ->
+  parse_input_line false (q ++ "@input name=" ++ String dquote (input_name attrs ++ String dquote ""))%string =
+  POk (Some (TInput attrs)).
+Proof.
+  intros q attrs Hq Hok [Hc Hr]. unfold input_ok in Hok.
+  destruct attrs as [|[k1 nm] [|[k2 lb] [|[k3 ph] [|]]]]; try discriminate.
+  do 5 (apply andb_prop in Hok; destruct Hok as [Hok ?]).
+  apply String.eqb_eq in Hok, H0, H1, H2, H3. subst k1 k2 k3 lb ph. rename H into Hqt.
+  change (input_name [("name", nm); ("label", title (replace_char nm "_" " ")); ("placeholder", "")]) with nm in *.
+  set (V := ("name=" ++ String dquote (nm ++ String dquote ""))%string) in *.
+  change ("@input name=" ++ String dquote (nm ++ String dquote ""))%string with ("@input " ++ V)%string in *.
+  unfold parse_input_line, parse_input_attrs. rewrite (sic_clean _ (clean_pfx q _ Hq Hc)).
+  rewrite (strip_pfx q ("@input " ++ V)%string Hq eq_refl Hr).
+  replace (startswith ("@input " ++ V)%string "@input") with true by reflexivity. cbn [negb].
+  change (drop 6 ("@input " ++ V)%string) with (" " ++ V)%string.
+  assert (HVs : strip (" " ++ V)%string = V).
+  { rewrite strip_pad_l. apply strip_fixed; [reflexivity|]. apply (rstrip_suffix "@input "); [discriminate|exact Hr]. }
+  rewrite HVs. replace (nonempty V) with true by reflexivity. cbn [negb].
+  unfold V. rewrite (find_attrs_name nm Hqt). reflexivity.
+Qed.
+
+Lemma hook_parts_print : forall (add : bool) e t, word_ok e = true -> word_ok t = true ->
+  PB.hook_parts ((if add then "@hook " else "@unhook ") ++ e ++ " " ++ t)%string = Some (e, t).
+Proof.
+  intros add e t He Ht. unfold PB.hook_parts. destruct add.
+  - change ("@hook " ++ e ++ " " ++ t)%string with ("@hook" ++ " " ++ e ++ " " ++ t)%string.
+    rewrite (split_ws_3 "@hook" e t eq_refl He Ht). reflexivity.
+  - change ("@unhook " ++ e ++ " " ++ t)%string with ("@unhook" ++ " " ++ e ++ " " ++ t)%string.
+    rewrite (split_ws_3 "@unhook" e t eq_refl He Ht). reflexivity.
+Qed.
+
+(* a choice inside a block *)
+Lemma inner_choice_print : forall c, inner_choice_ok c = true -> lines_ok (print_choice c) ->
+  exists l, print_choice c = [l] /\ starts_ns l = true /\ line_ok l = true /\
+            parse_choice_line l = POk (Some (c_choice 0 c)).
+Proof.
+  intros [tx tg ar cd stk blk] H Hl. cbn [inner_choice_ok] in H. apply andb_prop in H. destruct H as [Hh Hb].
+  destruct blk; [|discriminate]. cbn [print_choice print_items map] in *. inversion Hl as [|? ? Hl1 _]; subst.
+  exists (choice_line tx tg ar cd stk). split; [reflexivity|split; [|split; [exact Hl1|]]].
+  - rewrite choice_line_eq. destruct stk; reflexivity.
+  - rewrite (parse_choice_line_print tx tg ar cd stk Hh Hl1). reflexivity.
+Qed.
+
+(* ===== part 16 ===== *)
+Local Open Scope string_scope.
+Local Open Scope nat_scope.
+Local Open Scope list_scope.
+
+Lemma uline_line_ok : forall l, uline_ok l -> line_ok l = true.
+Proof. intros l [H1 H2]. unfold line_ok. rewrite H1, H2, String.eqb_refl. reflexivity. Qed.
+
+(* ------------------------------------------------------------------------------------------- *)
+(* how extract_conditional_block classifies the line of a branch                                *)
+(* ------------------------------------------------------------------------------------------- *)
+Inductive ckind :=
+| CComment | CPy | CInput | CRender | CHook | CUnhook | CStmt | CIf | CFor | CEndifColon | CEndif | CElif | CElse
+| CJump | CChoice | CText.
+
+(* the tests of cond_step in its order, for a line after the opening one, inside a branch *)
+Definition classify_c (stripped : string) : ckind :=
+  if startswith stripped "#" then CComment
+  else if PB.is_py_line stripped then CPy
+  else if startswith stripped "@input" then CInput
+  else if startswith stripped "@render" then CRender
+  else if startswith stripped "@hook " then CHook
+  else if startswith stripped "@unhook " then CUnhook
+  else if startswith stripped "~ " then CStmt
+  else if PB.is_if_line stripped then CIf
+  else if PB.is_for_line stripped then CFor
+  else if String.eqb stripped "@endif:" then CEndifColon
+  else if startswith stripped "<<endif>>" || String.eqb stripped "@endif" then CEndif
+  else if startswith stripped "<<elif " || startswith stripped "@elif " then CElif
+  else if startswith stripped "<<else>>" || startswith stripped "@else" then CElse
+  else if startswith stripped "->" then CJump
+  else if PB.is_choice_line stripped then CChoice
+  else CText.
+
+Ltac cchain H Hcur Hi :=
+  unfold classify_c in H; unfold PB.cond_step; cbv zeta; rewrite Hcur, Hi;
+  rewrite ?andb_true_r, ?andb_false_r; cbn [negb];
+  repeat match type of H with
+  | (if ?b then _ else _) = _ => destruct b eqn:?; try discriminate H
+  end.
+
+Section CondCtx.
+Variable rec_cond rec_loop : list string -> nat -> pres (token * nat).
+Notation cstep := (PB.cond_step true rlf rec_cond rec_loop).
+Notation cgo := (PB.cond_go true rlf rec_cond rec_loop).
+
+Lemma cstep_text : forall lines start i line st,
+  PB.has_cur st = true -> (i =? start) = false -> classify_c (strip line) = CText ->
+  cstep lines start i line st =
+  POk (PB.CNext (PB.mkCstate (PB.cs_branches st) (PB.cs_cur st) (PB.cs_lines st ++ [line]) (PB.cs_condvar st)) 1).
+Proof. intros lines start i line st Hcur Hi H. cchain H Hcur Hi. reflexivity. Qed.
+
+Lemma cstep_stmt : forall lines start i line st,
+  PB.has_cur st = true -> (i =? start) = false -> classify_c (strip line) = CStmt ->
+  cstep lines start i line st =
+  (let* st1 := PB.flush_cur true rlf st in
+   let ck := PB.cond_py_statement true rlf lines i line (drop 2 (strip line)) in
+   POk (PB.CNext (PB.push_tok st1 (TPyStmt (fst ck))) (snd ck))).
+Proof. intros lines start i line st Hcur Hi H. cchain H Hcur Hi. reflexivity. Qed.
+
+Lemma cstep_py : forall lines start i line st,
+  PB.has_cur st = true -> (i =? start) = false -> classify_c (strip line) = CPy ->
+  cstep lines start i line st =
+  (let* st1 := PB.flush_cur true rlf st in
+   let* ck := PB.extract_python_block_v true lines i in
+   POk (PB.CNext (PB.push_tok st1 (TPyBlock (fst ck))) (snd ck))).
+Proof. intros lines start i line st Hcur Hi H. cchain H Hcur Hi. reflexivity. Qed.
+
+Lemma cstep_input : forall lines start i line st,
+  PB.has_cur st = true -> (i =? start) = false -> classify_c (strip line) = CInput ->
+  cstep lines start i line st =
+  (let* st1 := PB.flush_cur true rlf st in
+   let* d := PB.lf_input rlf line in POk (PB.CNext (PB.push_opt st1 d) 1)).
+Proof. intros lines start i line st Hcur Hi H. cchain H Hcur Hi. reflexivity. Qed.
+
+Lemma cstep_render : forall lines start i line st,
+  PB.has_cur st = true -> (i =? start) = false -> classify_c (strip line) = CRender ->
+  cstep lines start i line st =
+  (let* st1 := PB.flush_cur true rlf st in
+   let* d := PB.lf_render rlf line in POk (PB.CNext (PB.push_opt st1 d) 1)).
+Proof. intros lines start i line st Hcur Hi H. cchain H Hcur Hi. reflexivity. Qed.
+
+Lemma cstep_hook : forall lines start i line st,
+  PB.has_cur st = true -> (i =? start) = false -> classify_c (strip line) = CHook ->
+  cstep lines start i line st =
+  (let* st1 := PB.flush_cur true rlf st in
+   POk (PB.CNext (PB.push_opt st1 (option_map (fun et => THook true (fst et) (snd et)) (PB.hook_parts (strip line)))) 1)).
+Proof. intros lines start i line st Hcur Hi H. cchain H Hcur Hi. reflexivity. Qed.
+
+Lemma cstep_unhook : forall lines start i line st,
+  PB.has_cur st = true -> (i =? start) = false -> classify_c (strip line) = CUnhook ->
+  cstep lines start i line st =
+  (let* st1 := PB.flush_cur true rlf st in
+   POk (PB.CNext (PB.push_opt st1 (option_map (fun et => THook false (fst et) (snd et)) (PB.hook_parts (strip line)))) 1)).
+Proof. intros lines start i line st Hcur Hi H. cchain H Hcur Hi. reflexivity. Qed.
+
+Lemma cstep_if : forall lines start i line st,
+  PB.has_cur st = true -> (i =? start) = false -> classify_c (strip line) = CIf ->
+  cstep lines start i line st =
+  (let* st1 := PB.flush_cur true rlf st in
+   let* tk := rec_cond lines i in POk (PB.CNext (PB.push_tok st1 (fst tk)) (snd tk))).
+Proof. intros lines start i line st Hcur Hi H. cchain H Hcur Hi. reflexivity. Qed.
+
+Lemma cstep_for : forall lines start i line st,
+  PB.has_cur st = true -> (i =? start) = false -> classify_c (strip line) = CFor ->
+  cstep lines start i line st =
+  (let* st1 := PB.flush_cur true rlf st in
+   let* tk := rec_loop lines i in POk (PB.CNext (PB.push_tok st1 (fst tk)) (snd tk))).
+Proof. intros lines start i line st Hcur Hi H. cchain H Hcur Hi. reflexivity. Qed.
+
+Lemma cstep_jump : forall lines start i line st,
+  PB.has_cur st = true -> (i =? start) = false -> classify_c (strip line) = CJump ->
+  cstep lines start i line st =
+  match PB.jump_of rlf (strip line) with
+  | Some ta => let* st1 := PB.flush_cur true rlf st in
+               POk (PB.CNext (PB.push_tok st1 (TJump (fst ta) (snd ta))) 1)
+  | None => POk (PB.CNext st 1)
+  end.
+Proof. intros lines start i line st Hcur Hi H. cchain H Hcur Hi. reflexivity. Qed.
+
+Lemma cstep_choice : forall lines start i line st,
+  PB.has_cur st = true -> (i =? start) = false -> classify_c (strip line) = CChoice ->
+  cstep lines start i line st =
+  (let* st1 := PB.flush_cur true rlf st in
+   let* ch := PB.lf_choice rlf (strip line) in POk (PB.CNext (PB.push_choice st1 ch) 1)).
+Proof. intros lines start i line st Hcur Hi H. cchain H Hcur Hi. reflexivity. Qed.
+
+Lemma cstep_endif : forall lines start i line st,
+  PB.has_cur st = true -> (i =? start) = false -> classify_c (strip line) = CEndif ->
+  cstep lines start i line st = (let* brs := PB.finalize rlf st in POk (PB.CDone brs)).
+Proof. intros lines start i line st Hcur Hi H. cchain H Hcur Hi. reflexivity. Qed.
+
+Lemma cstep_elif : forall lines start i line st,
+  PB.has_cur st = true -> (i =? start) = false -> classify_c (strip line) = CElif ->
+  startswith (strip line) "@elif " = true ->
+  cstep lines start i line st =
+  (let* c := match PB.match_colon_tail "@elif" (fst (strip_inline_comment (strip line))) with
+             | Some body => POk (strip body)
+             | None => PDiag (DSyntax "elif-missing-colon" i)
+             end in
+   PB.start_new_branch rlf st c (Some c)).
+Proof. intros lines start i line st Hcur Hi H He. cchain H Hcur Hi. rewrite He. reflexivity. Qed.
+
+Lemma cstep_else : forall lines start i line st,
+  PB.has_cur st = true -> (i =? start) = false -> classify_c (strip line) = CElse ->
+  startswith (strip line) "@else" = true ->
+  String.eqb (strip (fst (strip_inline_comment (strip line)))) "@else:" = true ->
+  cstep lines start i line st = PB.start_new_branch rlf st "True" (PB.cs_condvar st).
+Proof. intros lines start i line st Hcur Hi H He Hc. cchain H Hcur Hi. rewrite He, Hc. reflexivity. Qed.
+
+(* ---- the loop ---- *)
+Lemma cgo_step : forall lines start line rest i st st' k,
+  cstep lines start i line st = POk (PB.CNext st' (S k)) ->
+  cgo lines start (line :: rest) i 0 st = cgo lines start rest (S i) k st'.
+Proof. intros lines start line rest i st st' k H. cbn [PB.cond_go]. rewrite H. reflexivity. Qed.
+
+Lemma cgo_skip : forall lines start L rest i st,
+  cgo lines start (L ++ rest) i (List.length L) st = cgo lines start rest (i + List.length L) 0 st.
+Proof.
+  intros lines start L. induction L as [|l L IH]; intros rest i st.
+  - cbn [app List.length]. rewrite Nat.add_0_r. reflexivity.
+  - cbn [app List.length PB.cond_go]. rewrite IH. f_equal. lia.
+Qed.
+
+Lemma cgo_done : forall lines start line rest i st brs,
+  cstep lines start i line st = POk (PB.CDone brs) ->
+  cgo lines start (line :: rest) i 0 st = POk (TCond brs, S i - start).
+Proof. intros lines start line rest i st brs H. cbn [PB.cond_go]. rewrite H. reflexivity. Qed.
+
+(* ---- the state inside a branch ---- *)
+(* finished branches, condition of the current one, its flushed content, its choices, the pending text items *)
+Definition CS (brs : list branch) (c : string) (V : list token) (chs : list choice) (T : list item) (q : string)
+              (cv : option string) : PB.cstate :=
+  PB.mkCstate brs (Some (c, V, chs)) (map (indp q) (print_items T)) cv.
+
+Lemma CS_has_cur : forall brs c V chs T q cv, PB.has_cur (CS brs c V chs T q cv) = true.
+Proof. reflexivity. Qed.
+
+Lemma flush_cur_CS : forall brs c V chs T q cv, pfx q -> text_run T -> Forall uline_ok (print_items T) ->
+  PB.flush_cur true rlf (CS brs c V chs T q cv) = POk (CS brs c (V ++ c_items T) chs [] q cv).
+Proof.
+  intros brs c V chs T q cv Hq HT Hu. unfold PB.flush_cur, CS. cbn [PB.cs_cur PB.cs_lines PB.cs_branches PB.cs_condvar].
+  rewrite (flush_glue_run q T V Hq HT Hu). reflexivity.
+Qed.
+
+Lemma finalize_CS : forall brs c V chs T q cv, pfx q -> text_run T -> Forall uline_ok (print_items T) ->
+  PB.finalize rlf (CS brs c V chs T q cv) = POk (brs ++ [Branch c (V ++ c_items T) chs]).
+Proof.
+  intros brs c V chs T q cv Hq HT Hu. unfold PB.finalize, CS. cbn [PB.cs_cur PB.cs_lines PB.cs_branches].
+  rewrite (flush_glue_run q T V Hq HT Hu). reflexivity.
+Qed.
+
+Lemma text_run_nil : text_run [].
+Proof. constructor. Qed.
+
+(* an item's lines (at prefix q) take the loop from one branch state to the next; the logical content
+   V ++ c_items T grows by c_item it *)
+Definition cond_item_steps (q : string) (it : item) : Prop :=
+  forall lines start i rest brs c V T cv,
+    skipn i lines = map (indp q) (print_item it) ++ rest -> i <= List.length lines -> start < i ->
+    text_run T -> Forall uline_ok (print_items T) ->
+    exists V' T',
+      cgo lines start (map (indp q) (print_item it) ++ rest) i 0 (CS brs c V [] T q cv) =
+      cgo lines start rest (i + List.length (print_item it)) 0 (CS brs c V' [] T' q cv) /\
+      V' ++ c_items T' = (V ++ c_items T) ++ c_item it /\ text_run T' /\ Forall uline_ok (print_items T').
+
+Lemma classify_c_plain : forall c r, bad_start c = false -> classify_c (String c r) = CText.
+Proof.
+  intros c r H. destruct (bad_start_facts c H) as [H0 [H1 [H2 [H3 [H4 [H5 [H6 [H7 H8]]]]]]]].
+  unfold classify_c, PB.is_py_line, PB.is_if_line, PB.is_for_line, PB.is_choice_line.
+  cbn [startswith String.eqb]. unfold ascii_eqb. rewrite ?H1, ?H2, ?H3, ?H4, ?H5, ?H6, ?H7, ?H8. reflexivity.
+Qed.
+
+Lemma start_lt_neq : forall start i, start < i -> (i =? start) = false.
+Proof. intros. apply Nat.eqb_neq. lia. Qed.
+
+(* a directive-like single line: flush, push one token *)
+Lemma cond_single_push : forall q it l tok,
+  pfx q -> print_item it = [l] -> l <> ""%string -> c_item it = [tok] ->
+  (forall lines start i st, PB.has_cur st = true -> (i =? start) = false ->
+     nth_error lines i = Some (q ++ l)%string ->
+     cstep lines start i (q ++ l)%string st =
+     (let* st1 := PB.flush_cur true rlf st in POk (PB.CNext (PB.push_tok st1 tok) 1))) ->
+  cond_item_steps q it.
+Proof.
+  intros q it l tok Hq Hp Hne Hc Hstep lines start i rest brs c V T cv Hsk Hi Hlt HT Hu.
+  rewrite Hp in *. cbn [map app List.length] in *. rewrite (indp_ne q l Hne) in *.
+  exists ((V ++ c_items T) ++ [tok]), []. split; [|split; [|split; [apply text_run_nil|constructor]]].
+  - assert (N : nth_error lines i = Some (q ++ l)%string).
+    { rewrite <- (firstn_skipn i lines) at 1. rewrite Hsk. rewrite nth_error_app2; rewrite firstn_length_le by exact Hi; [|lia].
+      rewrite Nat.sub_diag. reflexivity. }
+    erewrite cgo_step; [rewrite Nat.add_1_r; reflexivity|].
+    rewrite (Hstep lines start i _ (CS_has_cur _ _ _ _ _ _ _) (start_lt_neq _ _ Hlt) N).
+    rewrite (flush_cur_CS brs c V [] T q cv Hq HT Hu). reflexivity.
+  - rewrite Hc. cbn [c_items]. rewrite List.app_nil_r. reflexivity.
+Qed.
+
+End CondCtx.
+
+(* ===== part 17 ===== *)
+Local Open Scope string_scope.
+Local Open Scope nat_scope.
+Local Open Scope list_scope.
+
+Ltac kind_c := unfold classify_c, PB.is_py_line, PB.is_if_line, PB.is_for_line, PB.is_choice_line;
+               cbn [startswith append]; rewrite ?startswith_nil; reflexivity.
+
+Lemma nth_of_skipn : forall (lines : list string) i l rest, skipn i lines = l :: rest -> i <= List.length lines ->
+  nth_error lines i = Some l.
+Proof.
+  intros lines i l rest H Hi. rewrite <- (firstn_skipn i lines) at 1. rewrite H.
+  rewrite nth_error_app2; rewrite firstn_length_le by exact Hi; [|lia]. rewrite Nat.sub_diag. reflexivity.
+Qed.
+
+Lemma split_at : forall (lines : list string) i L rest, skipn i lines = L ++ rest -> i <= List.length lines ->
+  lines = firstn i lines ++ L ++ rest /\ List.length (firstn i lines) = i.
+Proof.
+  intros lines i L rest H Hi. split; [rewrite <- H; symmetry; apply firstn_skipn|apply firstn_length_le, Hi].
+Qed.
+
+Section CondItems.
+Variable pp : pyparse.
+Variable rec_cond rec_loop : list string -> nat -> pres (token * nat).
+Notation cstep := (PB.cond_step true rlf rec_cond rec_loop).
+Notation cgo := (PB.cond_go true rlf rec_cond rec_loop).
+Notation citem := (cond_item_steps rec_cond rec_loop).
+
+(* ---- text and blank lines: appended to the pending lines ---- *)
+Lemma cond_textish : forall q it, pfx q -> textish it = true ->
+  (forall ps g, it = IText ps g -> text_line_ok ps g = true) -> Forall uline_ok (print_item it) ->
+  citem q it.
+Proof.
+  intros q it Hq Ht Hok Hul lines start i rest brs c V T cv Hsk Hi Hlt HT Hu.
+  assert (E : exists l, print_item it = [l] /\ classify_c (strip (indp q l)) = CText).
+  { destruct it; try discriminate.
+    - eexists. split; [reflexivity|]. inversion Hul as [|? ? Hl _]; subst.
+      destruct (text_line_parts ps glue (Hok _ _ eq_refl) Hl) as [_ [_ [_ [[ch [r [E Hc]]] _]]]].
+      destruct Hl as [_ Hr]. rewrite E in *. cbn [append indp] in *.
+      rewrite (strip_pfx q _ Hq); [apply classify_c_plain, Hc| |exact Hr].
+      destruct (bad_start_facts ch Hc) as [H0 _]. simpl. rewrite H0. reflexivity.
+    - exists ""%string. split; reflexivity. }
+  destruct E as [l [Ep Ek]]. rewrite Ep in *. cbn [map app List.length] in *.
+  exists V, (T ++ [it]). split; [|split; [|split]].
+  - erewrite cgo_step; [rewrite Nat.add_1_r; reflexivity|].
+    rewrite (cstep_text rec_cond rec_loop lines start i _ _ (CS_has_cur _ _ _ _ _ _ _) (start_lt_neq _ _ Hlt) Ek).
+    unfold CS. cbn [PB.cs_branches PB.cs_cur PB.cs_lines PB.cs_condvar].
+    rewrite print_items_app. cbn [print_items]. rewrite List.app_nil_r, Ep, map_app. reflexivity.
+  - rewrite c_items_app. cbn [c_items]. rewrite List.app_nil_r, List.app_assoc. reflexivity.
+  - apply Forall_app. split; [exact HT|]. constructor; [|constructor]. split; [exact Ht|exact Hok].
+  - rewrite print_items_app. cbn [print_items]. rewrite List.app_nil_r. apply Forall_app. split; [exact Hu|].
+    rewrite Ep. exact Hul.
+Qed.
+
+(* ---- single-line directives ---- *)
+Lemma cond_stmt : forall q c, pfx q -> stmt_ok pp c = true -> Forall uline_ok (print_item (IStmt c)) -> citem q (IStmt c).
+Proof.
+  intros q c Hq Hok Hul. cbn [print_item] in Hul. inversion Hul as [|? ? Hl _]; subst.
+  destruct (stmt_ok_weaken pp c Hok) as [Hn [Ht Ho]]. destruct (stmt_line_facts c Hn Ht Hl) as [F1 [F2 F3]].
+  apply (cond_single_push rec_cond rec_loop q (IStmt c) ("~ " ++ c)%string (TPyStmt c) Hq eq_refl ltac:(discriminate) eq_refl).
+  intros lines start i st Hcur Hi _. destruct Hl as [_ Hr].
+  assert (Sq : strip (q ++ "~ " ++ c)%string = ("~ " ++ c)%string) by (apply strip_pfx; assumption).
+  rewrite (cstep_stmt rec_cond rec_loop lines start i _ st Hcur Hi) by (rewrite Sq; kind_c).
+  rewrite Sq. change (drop 2 ("~ " ++ c)%string) with c. unfold PB.cond_py_statement.
+  rewrite (py_statement_one lines i c Ht Ho F3). cbn [fst snd andb Nat.ltb Nat.leb]. reflexivity.
+Qed.
+
+Lemma cond_jump : forall q t a, pfx q -> valid_passage_pattern t = true -> paren_free a = true ->
+  Forall uline_ok (print_item (IJump t a)) -> citem q (IJump t a).
+Proof.
+  intros q t a Hq Ht Ha Hul. cbn [print_item] in Hul. inversion Hul as [|? ? Hl _]; subst.
+  apply (cond_single_push rec_cond rec_loop q (IJump t a) ("-> " ++ t ++ print_args a)%string (TJump t a) Hq eq_refl
+           ltac:(discriminate) eq_refl).
+  intros lines start i st Hcur Hi _. pose proof Hl as [_ Hr].
+  assert (Sq : strip (q ++ "-> " ++ t ++ print_args a)%string = ("-> " ++ t ++ print_args a)%string)
+    by (apply strip_pfx; [exact Hq|reflexivity|exact Hr]).
+  rewrite (cstep_jump rec_cond rec_loop lines start i _ st Hcur Hi) by (rewrite Sq; kind_c).
+  rewrite Sq, (jump_of_print t a Ht Ha Hl). reflexivity.
+Qed.
+
+Lemma cond_render : forall q n a, pfx q -> render_ok n a = true ->
+  Forall uline_ok (print_item (IRender n a)) -> citem q (IRender n a).
+Proof.
+  intros q n a Hq Hok Hul. cbn [print_item] in Hul. inversion Hul as [|? ? Hl _]; subst.
+  apply (cond_single_push rec_cond rec_loop q (IRender n a) ("@render " ++ n ++ "(" ++ a ++ ")")%string (TRender n a None) Hq
+           eq_refl ltac:(discriminate) eq_refl).
+  intros lines start i st Hcur Hi _. pose proof Hl as [_ Hr].
+  assert (Sq : strip (q ++ "@render " ++ n ++ "(" ++ a ++ ")")%string = ("@render " ++ n ++ "(" ++ a ++ ")")%string)
+    by (apply strip_pfx; [exact Hq|reflexivity|exact Hr]).
+  rewrite (cstep_render rec_cond rec_loop lines start i _ st Hcur Hi) by (rewrite Sq; kind_c).
+  cbn [PB.lf_render rlf]. rewrite (render_line_print q n a Hq Hok Hl).
+  destruct (PB.flush_cur true rlf st); reflexivity.
+Qed.
+
+Lemma cond_input : forall q attrs, pfx q -> input_ok attrs = true ->
+  Forall uline_ok (print_item (IInput attrs)) -> citem q (IInput attrs).
+Proof.
+  intros q attrs Hq Hok Hul. cbn [print_item] in Hul. inversion Hul as [|? ? Hl _]; subst.
+  apply (cond_single_push rec_cond rec_loop q (IInput attrs) _ (TInput attrs) Hq eq_refl ltac:(discriminate) eq_refl).
+  intros lines start i st Hcur Hi _. pose proof Hl as [_ Hr].
+  assert (Sq : strip (q ++ "@input name=" ++ String dquote (input_name attrs ++ String dquote ""))%string =
+              ("@input name=" ++ String dquote (input_name attrs ++ String dquote ""))%string)
+    by (apply strip_pfx; [exact Hq|reflexivity|exact Hr]).
+  rewrite (cstep_input rec_cond rec_loop lines start i _ st Hcur Hi) by (rewrite Sq; kind_c).
+  cbn [PB.lf_input rlf]. rewrite (input_line_print q attrs Hq Hok Hl).
+  destruct (PB.flush_cur true rlf st); reflexivity.
+Qed.
+
+Lemma cond_hook : forall q (add : bool) e t, pfx q -> word_ok e = true -> word_ok t = true ->
+  Forall uline_ok (print_item (IHook add e t)) -> citem q (IHook add e t).
+Proof.
+  intros q add e t Hq He Ht Hul. cbn [print_item] in Hul. inversion Hul as [|? ? Hl _]; subst.
+  apply (cond_single_push rec_cond rec_loop q (IHook add e t) _ (THook add e t) Hq eq_refl
+           ltac:(destruct add; discriminate) eq_refl).
+  intros lines start i st Hcur Hi _. pose proof Hl as [_ Hr].
+  assert (Sq : strip (q ++ (if add then "@hook " else "@unhook ") ++ e ++ " " ++ t)%string =
+              ((if add then "@hook " else "@unhook ") ++ e ++ " " ++ t)%string)
+    by (apply strip_pfx; [exact Hq|destruct add; reflexivity|exact Hr]).
+  destruct add.
+  - rewrite (cstep_hook rec_cond rec_loop lines start i _ st Hcur Hi) by (rewrite Sq; kind_c).
+    rewrite Sq, (hook_parts_print true e t He Ht). destruct (PB.flush_cur true rlf st); reflexivity.
+  - rewrite (cstep_unhook rec_cond rec_loop lines start i _ st Hcur Hi) by (rewrite Sq; kind_c).
+    rewrite Sq, (hook_parts_print false e t He Ht). destruct (PB.flush_cur true rlf st); reflexivity.
+Qed.
+
+(* ---- blocks inside a branch: one step of the loop, then the lines are skipped ---- *)
+Lemma cond_block_push : forall q it l more tok,
+  pfx q -> print_item it = l :: more -> l <> ""%string -> c_item it = [tok] ->
+  (forall lines start i st, PB.has_cur st = true -> (i =? start) = false ->
+     (exists pre post, lines = pre ++ map (indp q) (print_item it) ++ post /\ List.length pre = i) ->
+     cstep lines start i (q ++ l)%string st =
+     (let* st1 := PB.flush_cur true rlf st in POk (PB.CNext (PB.push_tok st1 tok) (List.length (print_item it))))) ->
+  citem q it.
+Proof.
+  intros q it l more tok Hq Hp Hne Hc Hstep lines start i rest brs c V T cv Hsk Hi Hlt HT Hu.
+  exists ((V ++ c_items T) ++ [tok]), []. split; [|split; [|split; [apply text_run_nil|constructor]]].
+  - destruct (split_at lines i _ _ Hsk Hi) as [EL Elen].
+    assert (St : cstep lines start i (q ++ l)%string (CS brs c V [] T q cv) =
+                 POk (PB.CNext (CS brs c ((V ++ c_items T) ++ [tok]) [] [] q cv) (List.length (print_item it)))).
+    { rewrite (Hstep lines start i _ (CS_has_cur _ _ _ _ _ _ _) (start_lt_neq _ _ Hlt))
+        by (exists (firstn i lines), rest; split; assumption).
+      rewrite (flush_cur_CS brs c V [] T q cv Hq HT Hu). reflexivity. }
+    rewrite Hp in *. cbn [map app List.length] in *. rewrite (indp_ne q l Hne) in *.
+    rewrite (cgo_step rec_cond rec_loop lines start _ _ i _ _ _ St).
+    rewrite <- (map_length (indp q) more). rewrite cgo_skip. rewrite map_length. f_equal. lia.
+  - rewrite Hc. cbn [c_items]. rewrite List.app_nil_r. reflexivity.
+Qed.
+
+Lemma cond_py : forall q c, pfx q -> py_ok c = true -> citem q (IPy c).
+Proof.
+  intros q c Hq Hok.
+  apply (cond_block_push q (IPy c) "@py:"%string (split_char c nlc ++ ["@endpy"]) (TPyBlock c) Hq eq_refl
+           ltac:(discriminate) eq_refl).
+  intros lines start i st Hcur Hi [pre [post [EL Elen]]]. destruct Hq as [Hq1 Hq2].
+  assert (Sq : strip (q ++ "@py:")%string = "@py:"%string) by (rewrite (strip_app_ws q _ Hq1); reflexivity).
+  rewrite (cstep_py rec_cond rec_loop lines start i _ st Hcur Hi) by (rewrite Sq; reflexivity).
+  rewrite EL, <- Elen, (py_block_at q c pre post (conj Hq1 Hq2) Hok). destruct (PB.flush_cur true rlf st); reflexivity.
+Qed.
+
+(* nested @if / @for: what the recursive calls must deliver *)
+Definition rec_gives (rec : list string -> nat -> pres (token * nat)) (q : string) (it : item) (tok : token) : Prop :=
+  forall pre post, rec (pre ++ map (indp q) (print_item it) ++ post) (List.length pre) =
+                   POk (tok, List.length (print_item it)).
+
+Lemma if_header_facts : forall (first : bool) cond, cond_header_ok cond = true ->
+  exists l, if_header first cond = l /\ l <> ""%string /\ starts_ns l = true.
+Proof.
+  intros first cond H. unfold if_header. destruct (negb first && String.eqb cond "True").
+  - eexists; repeat split; discriminate.
+  - destruct first; eexists; repeat split; discriminate.
+Qed.
+
+Lemma cond_nested_if : forall q brs tok, pfx q -> brs <> [] ->
+  (match brs with (c0, _, _) :: _ => cond_header_ok c0 = true | [] => True end) ->
+  Forall uline_ok (print_item (IIf brs)) -> c_item (IIf brs) = [tok] ->
+  rec_gives rec_cond q (IIf brs) tok -> citem q (IIf brs).
+Proof.
+  intros q brs tok Hq Hne Hc0 Hul Hc Hrec. destruct brs as [|[[c0 b0] ch0] r]; [congruence|].
+  rewrite print_item_if in *. cbn [print_branches app] in *. unfold if_header at 1 in Hul. cbn [negb andb] in Hul.
+  inversion Hul as [|? ? Hl _]; subst.
+  eapply (cond_block_push q (IIf ((c0, b0, ch0) :: r)) ("@if " ++ c0 ++ ":")%string _ tok Hq);
+    [rewrite print_item_if; reflexivity|discriminate|exact Hc|].
+  intros lines start i st Hcur Hi [pre [post [EL Elen]]]. destruct Hl as [_ Hr].
+  assert (Sq : strip (q ++ "@if " ++ c0 ++ ":")%string = ("@if " ++ c0 ++ ":")%string)
+    by (apply strip_pfx; [exact Hq|reflexivity|exact Hr]).
+  rewrite (cstep_if rec_cond rec_loop lines start i _ st Hcur Hi) by (rewrite Sq; kind_c).
+  rewrite EL, <- Elen, (Hrec pre post). destruct (PB.flush_cur true rlf st); reflexivity.
+Qed.
+
+Lemma cond_nested_for : forall q v c body chs tok, pfx q ->
+  Forall uline_ok (print_item (IFor v c body chs)) -> c_item (IFor v c body chs) = [tok] ->
+  rec_gives rec_loop q (IFor v c body chs) tok -> citem q (IFor v c body chs).
+Proof.
+  intros q v c body chs tok Hq Hul Hc Hrec. rewrite print_item_for in Hul. inversion Hul as [|? ? Hl _]; subst.
+  eapply (cond_block_push q (IFor v c body chs) ("@for " ++ v ++ " in " ++ c ++ ":")%string _ tok Hq);
+    [apply print_item_for|discriminate|exact Hc|].
+  intros lines start i st Hcur Hi [pre [post [EL Elen]]]. destruct Hl as [_ Hr].
+  assert (Sq : strip (q ++ "@for " ++ v ++ " in " ++ c ++ ":")%string = ("@for " ++ v ++ " in " ++ c ++ ":")%string)
+    by (apply strip_pfx; [exact Hq|reflexivity|exact Hr]).
+  rewrite (cstep_for rec_cond rec_loop lines start i _ st Hcur Hi) by (rewrite Sq; kind_c).
+  rewrite EL, <- Elen, (Hrec pre post). destruct (PB.flush_cur true rlf st); reflexivity.
+Qed.
+
+(* ---- the items of a branch, one after the other ---- *)
+Lemma skipn_add : forall (A : Type) i n (l : list A), skipn (i + n) l = skipn n (skipn i l).
+Proof.
+  induction i as [|i IH]; intros n l; [reflexivity|]. destruct l as [|x l]; [destruct n; reflexivity|]. apply IH.
+Qed.
+
+Lemma skipn_more : forall (lines : list string) i L rest, skipn i lines = L ++ rest -> i <= List.length lines ->
+  skipn (i + List.length L) lines = rest /\ i + List.length L <= List.length lines.
+Proof.
+  intros lines i L rest H Hi. split.
+  - rewrite skipn_add, H. rewrite skipn_app, skipn_all, Nat.sub_diag. reflexivity.
+  - assert (E : List.length (skipn i lines) = List.length (L ++ rest)) by (rewrite H; reflexivity).
+    rewrite skipn_length, app_length in E. lia.
+Qed.
+
+Lemma cond_items_run : forall q body, Forall (citem q) body ->
+  forall lines start i rest brs c V T cv,
+    skipn i lines = map (indp q) (print_items body) ++ rest -> i <= List.length lines -> start < i ->
+    text_run T -> Forall uline_ok (print_items T) ->
+    exists V' T',
+      cgo lines start (map (indp q) (print_items body) ++ rest) i 0 (CS brs c V [] T q cv) =
+      cgo lines start rest (i + List.length (print_items body)) 0 (CS brs c V' [] T' q cv) /\
+      V' ++ c_items T' = (V ++ c_items T) ++ c_items body /\ text_run T' /\ Forall uline_ok (print_items T').
+Proof.
+  intros q body H. induction H as [|it body Hit _ IH]; intros lines start i rest brs c V T cv Hsk Hi Hlt HT Hu.
+  - exists V, T. cbn [print_items map app List.length c_items]. rewrite Nat.add_0_r, List.app_nil_r.
+    repeat split; assumption.
+  - cbn [print_items] in *. rewrite map_app, <- List.app_assoc in Hsk |- *.
+    destruct (Hit lines start i _ brs c V T cv Hsk Hi Hlt HT Hu) as [V1 [T1 [E1 [C1 [HT1 Hu1]]]]].
+    destruct (skipn_more lines i _ _ Hsk Hi) as [Hsk2 Hi2]. rewrite map_length in Hsk2, Hi2.
+    destruct (IH lines start (i + List.length (print_item it)) rest brs c V1 T1 cv Hsk2 Hi2 ltac:(lia) HT1 Hu1)
+      as [V2 [T2 [E2 [C2 [HT2 Hu2]]]]].
+    exists V2, T2. split; [|split; [|split; assumption]].
+    + rewrite E1, E2. rewrite app_length, Nat.add_assoc. reflexivity.
+    + rewrite C2, C1. cbn [c_items]. rewrite <- !List.app_assoc. reflexivity.
+Qed.
+
+(* ---- the choices of a branch ---- *)
+Lemma cond_choices_run : forall q chs, pfx q -> forallb inner_choice_ok chs = true ->
+  Forall uline_ok (print_choices chs) ->
+  forall lines start i rest brs c V T cv acc,
+    skipn i lines = map (fun l => (q ++ l)%string) (print_choices chs) ++ rest -> i <= List.length lines -> start < i ->
+    text_run T -> Forall uline_ok (print_items T) ->
+    cgo lines start (map (fun l => (q ++ l)%string) (print_choices chs) ++ rest) i 0 (CS brs c V acc T q cv) =
+    cgo lines start rest (i + List.length (print_choices chs)) 0
+        (CS brs c (V ++ c_items T) (acc ++ map (c_choice 0) chs) [] q cv) \/ chs = [] /\ True.
+Proof.
+  intros q chs Hq. induction chs as [|ch chs IH]; intros Hok Hul lines start i rest brs c V T cv acc Hsk Hi Hlt HT Hu.
+  - right. split; [reflexivity|exact I].
+  - left. cbn [forallb] in Hok. apply andb_prop in Hok. destruct Hok as [Hch Hok].
+    cbn [print_choices] in *. apply Forall_app in Hul. destruct Hul as [Hu1 Hu2].
+    assert (Hl1 : lines_ok (print_choice ch)).
+    { eapply Forall_impl; [|exact Hu1]. apply uline_line_ok. }
+    destruct (inner_choice_print ch Hch Hl1) as [l [Ep [Hns [Hlo Hpc]]]]. rewrite Ep in *.
+    cbn [map app List.length] in *. destruct (line_ok_parts _ Hlo) as [Hcl Hrs].
+    assert (Sq : strip (q ++ l)%string = l) by (apply strip_pfx; assumption).
+    assert (K : classify_c l = CChoice).
+    { destruct ch as [tx tg ar cd stk blk]. cbn [print_choice] in Ep. injection Ep as <-. rewrite choice_line_eq.
+      destruct stk; kind_c. }
+    assert (St : cstep lines start i (q ++ l)%string (CS brs c V acc T q cv) =
+                 POk (PB.CNext (CS brs c (V ++ c_items T) (acc ++ [c_choice 0 ch]) [] q cv) 1)).
+    { rewrite (cstep_choice rec_cond rec_loop lines start i _ _ (CS_has_cur _ _ _ _ _ _ _) (start_lt_neq _ _ Hlt))
+        by (rewrite Sq; exact K).
+      rewrite (flush_cur_CS brs c V acc T q cv Hq HT Hu). cbn [pbind]. rewrite Sq. cbn [PB.lf_choice rlf].
+      rewrite Hpc. reflexivity. }
+    rewrite (cgo_step rec_cond rec_loop lines start _ _ i _ _ _ St).
+    destruct (skipn_more lines i [(q ++ l)%string] _ Hsk Hi) as [Hsk2 Hi2]. cbn [List.length] in Hsk2, Hi2.
+    rewrite Nat.add_1_r in Hsk2, Hi2.
+    destruct (IH Hok Hu2 lines start (S i) rest brs c (V ++ c_items T) [] cv (acc ++ [c_choice 0 ch]) Hsk2 Hi2
+                 ltac:(lia) text_run_nil ltac:(constructor)) as [E|[-> _]].
+    + rewrite E. replace ((V ++ c_items T) ++ c_items []) with (V ++ c_items T)
+        by (change (c_items []) with (@nil token); rewrite List.app_nil_r; reflexivity).
+      rewrite <- List.app_assoc. cbn [app].
+      replace (S i + List.length (print_choices chs)) with (i + S (List.length (print_choices chs))) by lia. reflexivity.
+    + cbn [print_choices map app List.length]. rewrite Nat.add_1_r. reflexivity.
+Qed.
+
+End CondItems.
+
+(* ===== part 18 ===== *)
+Local Open Scope string_scope.
+Local Open Scope nat_scope.
+Local Open Scope list_scope.
+
+(* ------------------------------------------------------------------------------------------- *)
+(* the whole @if block                                                                          *)
+(* ------------------------------------------------------------------------------------------- *)
+Lemma match_colon_tail_print : forall kw cond, cond_header_ok cond = true ->
+  rstrip (kw ++ " " ++ cond ++ ":")%string = (kw ++ " " ++ cond ++ ":")%string ->
+  option_map strip (PB.match_colon_tail kw (kw ++ " " ++ cond ++ ":")%string) = Some cond.
+Proof.
+  intros kw cond H Hr. unfold cond_header_ok in H. apply andb_prop in H. destruct H as [Hn Ht].
+  unfold PB.match_colon_tail. rewrite Hr, startswith_app_self.
+  replace (kw ++ " " ++ cond ++ ":")%string with ((kw ++ " " ++ cond) ++ ":")%string by (rewrite !sapp_assoc; reflexivity).
+  rewrite endswith_app. cbn [andb]. rewrite slen_app. cbn [String.length].
+  replace (String.length (kw ++ " " ++ cond) + 1 - 1) with (String.length (kw ++ " " ++ cond)) by lia.
+  rewrite take_app, drop_app. cbn [append]. replace (is_space " ") with true by reflexivity.
+  destruct cond as [|c0 cr]; [discriminate|]. cbn [String.length Nat.leb andb option_map].
+  change (String " " (String c0 cr)) with (" " ++ String c0 cr)%string. rewrite strip_pad_l, (trimmed_eq _ Ht). reflexivity.
+Qed.
+
+Section CondBlock.
+Variable pp : pyparse.
+Variable rec_cond rec_loop : list string -> nat -> pres (token * nat).
+Notation cstep := (PB.cond_step true rlf rec_cond rec_loop).
+Notation cgo := (PB.cond_go true rlf rec_cond rec_loop).
+Notation citem := (cond_item_steps rec_cond rec_loop).
+
+(* the opening line *)
+Lemma cstep_open : forall lines q cond i, pfx q -> cond_header_ok cond = true ->
+  uline_ok ("@if " ++ cond ++ ":")%string ->
+  cstep lines i i (q ++ "@if " ++ cond ++ ":")%string PB.cstate0 =
+  POk (PB.CNext (CS [] cond [] [] [] (q ++ ind4)%string (Some cond)) 1).
+Proof.
+  intros lines q cond i Hq Hc [Hcl Hr].
+  assert (Sq : strip (q ++ "@if " ++ cond ++ ":")%string = ("@if " ++ cond ++ ":")%string)
+    by (apply strip_pfx; [exact Hq|reflexivity|exact Hr]).
+  unfold PB.cond_step. cbv zeta. rewrite Sq, Nat.eqb_refl.
+  replace (PB.has_cur PB.cstate0) with false by reflexivity. rewrite ?andb_false_r.
+  replace (startswith ("@if " ++ cond ++ ":")%string "#") with false by reflexivity.
+  replace (PB.is_if_line ("@if " ++ cond ++ ":")%string) with true
+    by (symmetry; unfold PB.is_if_line; cbn [startswith append]; rewrite ?startswith_nil; reflexivity).
+  cbn [andb]. rewrite (sic_clean _ Hcl). cbn [fst].
+  replace (startswith ("@if " ++ cond ++ ":")%string "@if ") with true
+    by (symmetry; cbn [startswith append]; rewrite ?startswith_nil; reflexivity).
+  pose proof (match_colon_tail_print "@if" cond Hc Hr) as M.
+  change ("@if" ++ " " ++ cond ++ ":")%string with ("@if " ++ cond ++ ":")%string in M.
+  destruct (PB.match_colon_tail "@if" ("@if " ++ cond ++ ":")%string) as [b|]; [|discriminate].
+  cbn [option_map] in M. injection M as M. rewrite M. reflexivity.
+Qed.
+
+(* one branch after its header *)
+Lemma branch_body_run : forall q body chs, pfx q -> Forall (citem (q ++ ind4)%string) body ->
+  forallb inner_choice_ok chs = true -> Forall uline_ok (print_choices chs) ->
+  forall lines start i rest brs c cv,
+    skipn i lines = map (indp (q ++ ind4)%string) (print_items body) ++
+                    map (fun l => ((q ++ ind4) ++ l)%string) (print_choices chs) ++ rest ->
+    i <= List.length lines -> start < i ->
+    exists V chs' T,
+      cgo lines start (map (indp (q ++ ind4)%string) (print_items body) ++
+                       map (fun l => ((q ++ ind4) ++ l)%string) (print_choices chs) ++ rest) i 0
+          (CS brs c [] [] [] (q ++ ind4)%string cv) =
+      cgo lines start rest (i + List.length (print_items body) + List.length (print_choices chs)) 0
+          (CS brs c V chs' T (q ++ ind4)%string cv) /\
+      V ++ c_items T = c_items body /\ chs' = map (c_choice 0) chs /\ text_run T /\ Forall uline_ok (print_items T).
+Proof.
+  intros q body chs Hq Hit Hch Hul lines start i rest brs c cv Hsk Hi Hlt.
+  pose proof (pfx_ind4 q Hq) as Hq'.
+  destruct (cond_items_run rec_cond rec_loop _ body Hit lines start i _ brs c [] [] cv Hsk Hi Hlt text_run_nil
+              ltac:(constructor)) as [V1 [T1 [E1 [C1 [HT1 Hu1]]]]].
+  destruct (skipn_more lines i _ _ Hsk Hi) as [Hsk2 Hi2]. rewrite map_length in Hsk2, Hi2.
+  destruct (cond_choices_run rec_cond rec_loop _ chs Hq' Hch Hul lines start _ rest brs c V1 T1 cv [] Hsk2 Hi2
+              ltac:(lia) HT1 Hu1) as [E2|[-> _]].
+  - exists (V1 ++ c_items T1), (map (c_choice 0) chs), []. split; [|split; [|split; [reflexivity|split; [apply text_run_nil|constructor]]]].
+    + rewrite E1, E2. reflexivity.
+    + cbn [c_items]. rewrite List.app_nil_r, C1. reflexivity.
+  - exists V1, [], T1. split; [|split; [|split; [reflexivity|split; assumption]]].
+    + rewrite E1. cbn [print_choices map app List.length]. rewrite Nat.add_0_r. reflexivity.
+    + rewrite C1. reflexivity.
+Qed.
+
+Definition branch_ok (q : string) (b : string * list item * list schoice) : Prop :=
+  match b with
+  | (cond, body, chs) =>
+      cond_header_ok cond = true /\ Forall (citem (q ++ ind4)%string) body /\
+      forallb inner_choice_ok chs = true /\ Forall uline_ok (print_choices chs)
+  end.
+
+Lemma print_branches_cons : forall c body chs r (first : bool),
+  print_branches ((c, body, chs) :: r) first =
+  if_header first c :: map indent_nonempty (print_items body) ++ map indent_always (print_choices chs) ++
+  print_branches r false.
+Proof. reflexivity. Qed.
+
+Lemma map_indp_branch : forall q body chs rest,
+  map (indp q) (map indent_nonempty (print_items body) ++ map indent_always (print_choices chs) ++ rest) =
+  map (indp (q ++ ind4)%string) (print_items body) ++
+  map (fun l => ((q ++ ind4) ++ l)%string) (print_choices chs) ++ map (indp q) rest.
+Proof. intros. rewrite !map_app, map_indp_nonempty, map_indp_always. reflexivity. Qed.
+
+Lemma branches_lines : forall q c1 b1 ch1 r (first : bool) tail,
+  map (indp q) (print_branches ((c1, b1, ch1) :: r) first ++ tail) =
+  indp q (if_header first c1) ::
+  map (indp (q ++ ind4)%string) (print_items b1) ++
+  map (fun l => ((q ++ ind4) ++ l)%string) (print_choices ch1) ++ map (indp q) (print_branches r false ++ tail).
+Proof.
+  intros. rewrite print_branches_cons. rewrite <- List.app_comm_cons. cbn [map]. f_equal.
+  rewrite <- !List.app_assoc. apply map_indp_branch.
+Qed.
+
+(* the remaining branches and the closing line *)
+Lemma cond_rest_run : forall q r, pfx q -> Forall (branch_ok q) r ->
+  Forall uline_ok (print_branches r false) ->
+  forall lines start i rest brs c V chs T cv,
+    skipn i lines = map (indp q) (print_branches r false ++ ["@endif"]) ++ rest ->
+    i <= List.length lines -> start < i -> text_run T -> Forall uline_ok (print_items T) ->
+    cgo lines start (map (indp q) (print_branches r false ++ ["@endif"]) ++ rest) i 0
+        (CS brs c V chs T (q ++ ind4)%string cv) =
+    POk (TCond (brs ++ [Branch c (V ++ c_items T) chs] ++ c_branches r),
+         i + List.length (print_branches r false ++ ["@endif"]) - start).
+Proof.
+  intros q r Hq Hr. pose proof (pfx_ind4 q Hq) as Hq'.
+  induction Hr as [|[[c1 b1] ch1] r [Hc1 [Hb1 [Hch1 Hul1]]] _ IH];
+    intros Hu lines start i rest brs c V chs T cv Hsk Hi Hlt HT HuT.
+  - cbn [print_branches app map indp List.length] in *.
+    assert (Sq : strip (q ++ "@endif")%string = "@endif"%string)
+      by (destruct Hq as [Hq1 _]; rewrite (strip_app_ws q _ Hq1); reflexivity).
+    assert (St : cstep lines start i (q ++ "@endif")%string (CS brs c V chs T (q ++ ind4)%string cv) =
+                 POk (PB.CDone (brs ++ [Branch c (V ++ c_items T) chs]))).
+    { rewrite (cstep_endif rec_cond rec_loop lines start i _ _ (CS_has_cur _ _ _ _ _ _ _) (start_lt_neq _ _ Hlt))
+        by (rewrite Sq; reflexivity).
+      rewrite (finalize_CS brs c V chs T _ cv Hq' HT HuT). reflexivity. }
+    rewrite (cgo_done rec_cond rec_loop lines start _ _ i _ _ St). rewrite Nat.add_1_r. reflexivity.
+  - rewrite print_branches_cons in Hu. inversion Hu as [|? ? Hlh Hu']; subst.
+    apply Forall_app in Hu'. destruct Hu' as [Hub Hu']. apply Forall_app in Hu'. destruct Hu' as [Huc Hur].
+    rewrite <- Hsk. rewrite branches_lines, <- !List.app_comm_cons, <- !List.app_assoc in Hsk. rewrite Hsk.
+    destruct (if_header_facts false c1 Hc1) as [hl [Eh [Hne Hns]]]. rewrite Eh in *. rewrite (indp_ne q hl Hne) in *.
+    pose proof Hlh as [Hcl Hrr].
+    assert (Sq : strip (q ++ hl)%string = hl) by (apply strip_pfx; assumption).
+    (* the header starts a new branch *)
+    assert (St : exists cv', cstep lines start i (q ++ hl)%string (CS brs c V chs T (q ++ ind4)%string cv) =
+                   POk (PB.CNext (CS (brs ++ [Branch c (V ++ c_items T) chs]) c1 [] [] [] (q ++ ind4)%string cv') 1)).
+    { unfold if_header in Eh. cbn [negb andb] in Eh. destruct (String.eqb c1 "True") eqn:Et.
+      - apply String.eqb_eq in Et. subst c1 hl. exists cv.
+        rewrite (cstep_else rec_cond rec_loop lines start i _ _ (CS_has_cur _ _ _ _ _ _ _) (start_lt_neq _ _ Hlt));
+          try (rewrite Sq; reflexivity).
+        unfold PB.start_new_branch. rewrite (finalize_CS brs c V chs T _ cv Hq' HT HuT). reflexivity.
+      - subst hl. exists (Some c1).
+        rewrite (cstep_elif rec_cond rec_loop lines start i _ _ (CS_has_cur _ _ _ _ _ _ _) (start_lt_neq _ _ Hlt));
+          try (rewrite Sq; kind_c).
+        rewrite Sq, (sic_clean _ Hcl). cbn [fst].
+        pose proof (match_colon_tail_print "@elif" c1 Hc1 Hrr) as M.
+        change ("@elif" ++ " " ++ c1 ++ ":")%string with ("@elif " ++ c1 ++ ":")%string in M.
+        destruct (PB.match_colon_tail "@elif" ("@elif " ++ c1 ++ ":")%string) as [b|]; [|discriminate].
+        cbn [option_map] in M. injection M as M. rewrite M. cbn [pbind].
+        unfold PB.start_new_branch. rewrite (finalize_CS brs c V chs T _ cv Hq' HT HuT). reflexivity. }
+    destruct St as [cv' St]. rewrite (cgo_step rec_cond rec_loop lines start _ _ i _ _ _ St).
+    destruct (skipn_more lines i [(q ++ hl)%string] _ Hsk Hi) as [Hsk2 Hi2]. cbn [List.length] in Hsk2, Hi2.
+    rewrite Nat.add_1_r in Hsk2, Hi2.
+    destruct (branch_body_run q b1 ch1 Hq Hb1 Hch1 (ulines_of_always _ Huc) lines start (S i) _
+                (brs ++ [Branch c (V ++ c_items T) chs]) c1 cv' Hsk2 Hi2 ltac:(lia)) as [V2 [chs2 [T2 [E2 [C2 [Ech [HT2 Hu2]]]]]]].
+    rewrite E2.
+    assert (Hsk3 : skipn (S i + List.length (print_items b1) + List.length (print_choices ch1)) lines =
+                   map (indp q) (print_branches r false ++ ["@endif"]) ++ rest /\
+                   S i + List.length (print_items b1) + List.length (print_choices ch1) <= List.length lines).
+    { rewrite List.app_assoc in Hsk2. destruct (skipn_more lines (S i) _ _ Hsk2 Hi2) as [A B].
+      rewrite app_length, !map_length, Nat.add_assoc in A, B. split; assumption. }
+    destruct Hsk3 as [Hsk3 Hi3].
+    rewrite (IH Hur lines start _ rest _ c1 V2 chs2 T2 cv' Hsk3 Hi3 ltac:(lia) HT2 Hu2).
+    f_equal. f_equal.
+    + rewrite C2, Ech. cbn [c_branches map app]. rewrite <- !List.app_assoc. reflexivity.
+    + rewrite print_branches_cons. rewrite !app_length. cbn [List.length]. rewrite !app_length, !map_length.
+      cbn [List.length]. lia.
+Qed.
+
+(* the block *)
+Lemma cond_body_print : forall q brs pre post, pfx q -> brs <> [] -> Forall (branch_ok q) brs ->
+  Forall uline_ok (print_item (IIf brs)) ->
+  PB.cond_body true rlf rec_cond rec_loop (pre ++ map (indp q) (print_item (IIf brs)) ++ post) (List.length pre) =
+  POk (TCond (c_branches brs), List.length (print_item (IIf brs))).
+Proof.
+  intros q brs pre post Hq Hne Hbr Hu. destruct brs as [|[[c0 b0] ch0] r]; [congruence|].
+  inversion Hbr as [|? ? Hb0' Hr]; subst. cbn [branch_ok] in Hb0'. destruct Hb0' as [Hc0 [Hb0 [Hch0 Hul0]]].
+  rewrite print_item_if in *.
+  assert (Hparts : uline_ok ("@if " ++ c0 ++ ":")%string /\
+                   Forall uline_ok (map indent_always (print_choices ch0)) /\
+                   Forall uline_ok (print_branches r false)).
+  { rewrite print_branches_cons in Hu. rewrite <- List.app_comm_cons in Hu. inversion Hu as [|? ? Hlh Hu']; subst.
+    rewrite <- !List.app_assoc in Hu'.
+    apply Forall_app in Hu'. destruct Hu' as [_ Hu']. apply Forall_app in Hu'. destruct Hu' as [Huc Hu'].
+    apply Forall_app in Hu'. destruct Hu' as [Hur _]. split; [exact Hlh|split; [exact Huc|exact Hur]]. }
+  destruct Hparts as [Hlh [Huc Hur]].
+  set (lines := pre ++ map (indp q) (print_branches ((c0, b0, ch0) :: r) true ++ ["@endif"]) ++ post).
+  set (start := List.length pre).
+  assert (Hsk : skipn start lines =
+                (q ++ "@if " ++ c0 ++ ":")%string ::
+                map (indp (q ++ ind4)%string) (print_items b0) ++
+                map (fun l => ((q ++ ind4) ++ l)%string) (print_choices ch0) ++
+                map (indp q) (print_branches r false ++ ["@endif"]) ++ post).
+  { unfold lines, start. rewrite skipn_app, skipn_all, Nat.sub_diag. cbn [skipn app].
+    rewrite branches_lines. rewrite <- List.app_comm_cons, <- !List.app_assoc. reflexivity. }
+  assert (Hlen : start <= List.length lines) by (unfold lines, start; rewrite app_length; lia).
+  unfold PB.cond_body. fold start. rewrite Hsk.
+  erewrite cgo_step; [|apply (cstep_open lines q c0 start Hq Hc0 Hlh)].
+  destruct (skipn_more lines start [(q ++ "@if " ++ c0 ++ ":")%string] _ Hsk Hlen) as [Hsk2 Hi2].
+  cbn [List.length] in Hsk2, Hi2. rewrite Nat.add_1_r in Hsk2, Hi2.
+  destruct (branch_body_run q b0 ch0 Hq Hb0 Hch0 (ulines_of_always _ Huc) lines start (S start) _ [] c0 (Some c0)
+              Hsk2 Hi2 ltac:(lia)) as [V2 [chs2 [T2 [E2 [C2 [Ech [HT2 Hu2]]]]]]].
+  rewrite E2.
+  assert (Hsk3 : skipn (S start + List.length (print_items b0) + List.length (print_choices ch0)) lines =
+                 map (indp q) (print_branches r false ++ ["@endif"]) ++ post /\
+                 S start + List.length (print_items b0) + List.length (print_choices ch0) <= List.length lines).
+  { rewrite List.app_assoc in Hsk2. destruct (skipn_more lines (S start) _ _ Hsk2 Hi2) as [A B].
+    rewrite app_length, !map_length, Nat.add_assoc in A, B. split; assumption. }
+  destruct Hsk3 as [Hsk3 Hi3].
+  rewrite (cond_rest_run q r Hq Hr Hur lines start _ post [] c0 V2 chs2 T2 (Some c0) Hsk3 Hi3 ltac:(lia) HT2 Hu2).
+  f_equal. f_equal.
+  - rewrite C2, Ech. reflexivity.
+  - rewrite print_branches_cons. rewrite !app_length. cbn [List.length]. rewrite !app_length, !map_length.
+    cbn [List.length]. lia.
+Qed.
+
+End CondBlock.
+
+(* ===== part 19 ===== *)
+Local Open Scope string_scope.
+Local Open Scope nat_scope.
+Local Open Scope list_scope.
+
+(* ------------------------------------------------------------------------------------------- *)
+(* the @for header                                                                              *)
+(* ------------------------------------------------------------------------------------------- *)
+Lemma ws_run_ns : forall t, starts_ns t = true -> PB.ws_run t = 0.
+Proof. intros t H. unfold PB.ws_run. rewrite (lstrip_starts_ns t H). lia. Qed.
+
+Lemma for_tail_colon_ns : forall t, starts_ns t = true -> PB.for_tail_colon t = None.
+Proof. intros t H. unfold PB.for_tail_colon. rewrite (ws_run_ns t H). reflexivity. Qed.
+
+Lemma for_scan_word : forall w pre rest, all_chars (fun c => negb (is_space c)) w = true ->
+  PB.for_scan PB.for_tail_colon pre (w ++ String " " rest)%string =
+  PB.for_scan PB.for_tail_colon (pre ++ w)%string (String " " rest) \/ w = ""%string.
+Proof.
+  induction w as [|c w IH]; intros pre rest H; [right; reflexivity|]. left.
+  simpl in H. apply andb_prop in H. destruct H as [H1 H2]. apply negb_true_iff in H1.
+  cbn [append PB.for_scan].
+  assert (T : forall t, PB.for_tail_colon (String c t) = None).
+  { intros t. apply for_tail_colon_ns. simpl. rewrite H1. reflexivity. }
+  rewrite T. replace (if PB.nonempty pre then @None string else None) with (@None string) by (destruct (PB.nonempty pre); reflexivity).
+  destruct (IH (pre ++ String c "")%string rest H2) as [E| ->].
+  - rewrite E. rewrite sapp_cons. reflexivity.
+  - cbn [append]. reflexivity.
+Qed.
+
+Lemma match_colon_tail_raw : forall kw X, X <> ""%string ->
+  rstrip (kw ++ " " ++ X ++ ":")%string = (kw ++ " " ++ X ++ ":")%string ->
+  PB.match_colon_tail kw (kw ++ " " ++ X ++ ":")%string = Some (" " ++ X)%string.
+Proof.
+  intros kw X Hne Hr. unfold PB.match_colon_tail. rewrite Hr, startswith_app_self.
+  replace (kw ++ " " ++ X ++ ":")%string with ((kw ++ " " ++ X) ++ ":")%string by (rewrite !sapp_assoc; reflexivity).
+  rewrite endswith_app. cbn [andb]. rewrite slen_app. cbn [String.length].
+  replace (String.length (kw ++ " " ++ X) + 1 - 1) with (String.length (kw ++ " " ++ X)) by lia.
+  rewrite take_app, drop_app. destruct X as [|x0 xr]; [congruence|]. reflexivity.
+Qed.
+
+Lemma rstrip_word : forall s, all_chars (fun c => negb (is_space c)) s = true -> rstrip s = s.
+Proof.
+  induction s as [|x s IH]; intros H; [reflexivity|].
+  simpl in H. apply andb_prop in H. destruct H as [H1 H2]. apply negb_true_iff in H1.
+  rewrite rstrip_cons_ne by exact H1. rewrite (IH H2). reflexivity.
+Qed.
+
+Lemma for_match_print : forall v c, word_ok v = true -> cond_header_ok c = true ->
+  PB.for_match PB.for_tail_colon (" " ++ v ++ " in " ++ c)%string = Some (v, c).
+Proof.
+  intros v c Hv Hc.
+  unfold word_ok in Hv. apply andb_prop in Hv. destruct Hv as [Hv1 Hv2].
+  unfold cond_header_ok in Hc. apply andb_prop in Hc. destruct Hc as [Hc1 Hc2].
+  assert (Vns : starts_ns v = true).
+  { destruct v as [|v0 vr]; [discriminate|]. simpl in Hv2 |- *. apply andb_prop in Hv2. tauto. }
+  assert (Cne : c <> ""%string) by (destruct c; [discriminate|discriminate]).
+  unfold PB.for_match.
+  assert (W : PB.ws_run (" " ++ v ++ " in " ++ c)%string = 1).
+  { rewrite (ws_run_app " " _ eq_refl). rewrite (ws_run_ns _ (starts_ns_app v _ Vns)). reflexivity. }
+  rewrite W. cbn [PB.for_starts]. change (drop 1 (" " ++ v ++ " in " ++ c)%string) with (v ++ String " " ("in " ++ c))%string.
+  destruct (for_scan_word v "" ("in " ++ c)%string Hv2) as [E|E]; [|subst v; discriminate].
+  rewrite E. change ("" ++ v)%string with v.
+  assert (T : PB.for_tail_colon (String " " ("in " ++ c)%string) = Some c).
+  { unfold PB.for_tail_colon. change (String " " ("in " ++ c)%string) with (" " ++ ("in " ++ c))%string.
+    rewrite (ws_run_app " " _ eq_refl). change (1 <=? String.length " " + PB.ws_run ("in " ++ c)%string) with true. cbv iota.
+    change (lstrip (" " ++ "in " ++ c)%string) with ("in " ++ c)%string.
+    replace (startswith ("in " ++ c)%string "in") with true by reflexivity.
+    change (drop 2 ("in " ++ c)%string) with (String " " c). replace (is_space " ") with true by reflexivity.
+    destruct c as [|c0 cr]; [congruence|]. cbn [String.length Nat.leb andb].
+    change (String " " (String c0 cr)) with (" " ++ String c0 cr)%string. rewrite strip_pad_l, (trimmed_eq _ Hc2). reflexivity. }
+  destruct v as [|v0 vr]; [discriminate|]. cbn [PB.for_scan PB.nonempty]. rewrite T.
+  f_equal. f_equal. apply strip_fixed; [exact Vns|apply rstrip_word, Hv2].
+Qed.
+
+Lemma match_for_colon_print : forall v c, word_ok v = true -> cond_header_ok c = true ->
+  rstrip ("@for " ++ v ++ " in " ++ c ++ ":")%string = ("@for " ++ v ++ " in " ++ c ++ ":")%string ->
+  PB.match_for_colon ("@for " ++ v ++ " in " ++ c ++ ":")%string = Some (v, c).
+Proof.
+  intros v c Hv Hc Hr. unfold PB.match_for_colon.
+  assert (Xne : (v ++ " in " ++ c)%string <> ""%string).
+  { unfold word_ok in Hv. apply andb_prop in Hv. destruct Hv as [Hv1 _]. destruct v; [discriminate|discriminate]. }
+  pose proof (match_colon_tail_raw "@for" (v ++ " in " ++ c)%string Xne) as M.
+  replace ("@for" ++ " " ++ (v ++ " in " ++ c) ++ ":")%string with ("@for " ++ v ++ " in " ++ c ++ ":")%string in M
+    by (cbn [append]; rewrite !sapp_assoc; reflexivity).
+  rewrite (M Hr). apply for_match_print; assumption.
+Qed.
+
+(* ------------------------------------------------------------------------------------------- *)
+(* the first loop: collecting the raw body up to the matching @endfor                           *)
+(* ------------------------------------------------------------------------------------------- *)
+(* a line that is neither a for header nor an @endfor *)
+Definition fneutral (l : string) : Prop :=
+  String.eqb (strip l) "@endfor:" = false /\ PB.is_for_line (strip l) = false /\
+  (startswith (strip l) "<<endfor>>" || String.eqb (strip l) "@endfor") = false.
+Definition fheader (l : string) : Prop :=
+  String.eqb (strip l) "@endfor:" = false /\ PB.is_for_line (strip l) = true.
+Definition fcloser (l : string) : Prop :=
+  String.eqb (strip l) "@endfor:" = false /\ PB.is_for_line (strip l) = false /\
+  (startswith (strip l) "<<endfor>>" || String.eqb (strip l) "@endfor") = true.
+
+(* balanced with respect to for / endfor *)
+Inductive fbal : list string -> Prop :=
+| fb_nil : fbal []
+| fb_neutral : forall l r, fneutral l -> fbal r -> fbal (l :: r)
+| fb_block : forall h body e r, fheader h -> fbal body -> fcloser e -> fbal r -> fbal (h :: body ++ e :: r).
+
+Lemma fbal_app : forall a b, fbal a -> fbal b -> fbal (a ++ b).
+Proof.
+  intros a b Ha Hb. induction Ha as [|l r Hl _ IH|h body e r Hh Hbody _ He _ IH]; [exact Hb| |].
+  - cbn [app]. apply fb_neutral; assumption.
+  - cbn [app]. rewrite <- List.app_assoc. cbn [app]. apply fb_block; assumption.
+Qed.
+
+Lemma loop_collect_bal : forall L, fbal L -> forall start rest i d raw v c, start < i -> (0 < d)%Z ->
+  PB.loop_collect start (L ++ rest) i true d raw v c =
+  PB.loop_collect start rest (i + List.length L) true d (raw ++ L) v c.
+Proof.
+  intros L H. induction H as [|l r [N1 [N2 N3]] _ IH|h body e r [H1 H2] _ IHb [E1 [E2 E3]] _ IHr];
+    intros start rest i d raw v c Hlt Hd.
+  - cbn [app List.length]. rewrite Nat.add_0_r, List.app_nil_r. reflexivity.
+  - cbn [app PB.loop_collect List.length]. rewrite N2, N1, N3. cbn [andb].
+    rewrite (IH start rest (S i) d (raw ++ [l]) v c ltac:(lia) Hd). rewrite <- List.app_assoc. cbn [app].
+    f_equal. lia.
+  - cbn [app PB.loop_collect List.length]. rewrite H2, H1.
+    replace (i =? start) with false by (symmetry; apply Nat.eqb_neq; lia). cbn [andb].
+    rewrite <- List.app_assoc. cbn [app].
+    rewrite (IHb start (e :: r ++ rest) (S i) (d + 1)%Z (raw ++ [h]) v c ltac:(lia) ltac:(lia)).
+    cbn [PB.loop_collect]. rewrite E2, E1, E3. cbn [andb].
+    replace (d + 1 - 1 =? 0)%Z with false by (symmetry; apply Z.eqb_neq; lia).
+    replace (d + 1 - 1)%Z with d by lia.
+    rewrite (IHr start rest (S (S i + List.length body)) d (((raw ++ [h]) ++ body) ++ [e]) v c ltac:(lia) Hd).
+    rewrite !app_length. cbn [List.length]. rewrite <- !List.app_assoc. cbn [app].
+    f_equal. lia.
+Qed.
+
+(* ---- every printed item is balanced ---- *)
+Lemma fneutral_head : forall c r, Ascii.eqb c "@" = false -> Ascii.eqb c "<" = false ->
+  String.eqb (String c r) "@endfor:" = false /\ PB.is_for_line (String c r) = false /\
+  (startswith (String c r) "<<endfor>>" || String.eqb (String c r) "@endfor") = false.
+Proof.
+  intros c r H1 H2. unfold PB.is_for_line. cbn [String.eqb startswith]. unfold ascii_eqb. rewrite H1, H2.
+  repeat split; reflexivity.
+Qed.
+
+Lemma fneutral_indp : forall q l, pfx q -> fneutral l -> fneutral (indp q l).
+Proof. intros q l Hq H. unfold fneutral in *. rewrite (strip_indp q l Hq). exact H. Qed.
+
+Lemma fneutral_of_strip : forall l s, strip l = s ->
+  (String.eqb s "@endfor:" = false /\ PB.is_for_line s = false /\
+   (startswith s "<<endfor>>" || String.eqb s "@endfor") = false) -> fneutral l.
+Proof. intros l s E H. unfold fneutral. rewrite E. exact H. Qed.
+
+Ltac neutral_strip Hr :=
+  match type of Hr with rstrip ?x = _ => apply (fneutral_of_strip _ x (strip_fixed x eq_refl Hr)) end.
+
+Ltac neutral_known := unfold PB.is_for_line; cbn [startswith append String.eqb]; repeat split; reflexivity.
+
+Lemma choice_line_neutral : forall tx tg ar cd stk, uline_ok (choice_line tx tg ar cd stk) ->
+  fneutral (choice_line tx tg ar cd stk).
+Proof.
+  intros tx tg ar cd stk [_ Hr]. rewrite choice_line_eq in *. destruct stk.
+  - neutral_strip Hr. apply fneutral_head; reflexivity.
+  - neutral_strip Hr. apply fneutral_head; reflexivity.
+Qed.
+
+Lemma fbal_neutrals : forall L, Forall fneutral L -> fbal L.
+Proof. induction 1; [constructor|apply fb_neutral; assumption]. Qed.
+
+Lemma choices_neutral : forall chs, forallb inner_choice_ok chs = true -> Forall uline_ok (print_choices chs) ->
+  Forall fneutral (print_choices chs).
+Proof.
+  induction chs as [|[tx tg ar cd stk blk] chs IH]; intros Hok Hu; [constructor|].
+  cbn [forallb] in Hok. apply andb_prop in Hok. destruct Hok as [Hc Hok].
+  cbn [inner_choice_ok] in Hc. apply andb_prop in Hc. destruct Hc as [_ Hb]. destruct blk; [|discriminate].
+  cbn [print_choices print_choice print_items map app] in *. inversion Hu as [|? ? Hl Hu']; subst.
+  constructor; [apply choice_line_neutral, Hl|apply IH; assumption].
+Qed.
+
+Lemma py_lines_neutral : forall c, py_ok c = true -> Forall fneutral (split_char c nlc).
+Proof.
+  intros c H. unfold py_ok in H. cbv zeta in H. apply andb_prop in H. destruct H as [H _].
+  apply Forall_forall. intros l Hl. rewrite forallb_forall in H. specialize (H l Hl).
+  unfold py_line_ok in H. do 2 (apply andb_prop in H; destruct H as [H ?]).
+  apply negb_true_iff in H0, H1. unfold fneutral. destruct (strip l) as [|x s] eqn:E; [neutral_known|].
+  cbn [startswith] in H0, H1. unfold ascii_eqb in H0, H1. rewrite startswith_nil, andb_true_r in H0, H1.
+  apply fneutral_head; assumption.
+Qed.
+
+Definition item_lines_ok (pp : pyparse) (it : item) : Prop :=
+  item_ok pp false it = true /\ Forall uline_ok (print_item it).
+
+Lemma text_item_neutral : forall ps glue, text_line_ok ps glue = true ->
+  uline_ok (print_pieces ps ++ (if glue then "<>" else ""))%string ->
+  fneutral (print_pieces ps ++ (if glue then "<>" else ""))%string.
+Proof.
+  intros ps glue Hok Hu. destruct (text_line_parts ps glue Hok Hu) as [_ [_ [_ [[c [r [E Hc]]] _]]]].
+  destruct Hu as [_ Hr]. rewrite E in *. cbn [append] in *.
+  destruct (bad_start_facts c Hc) as [H0 [_ [H2 [H3 _]]]].
+  apply (fneutral_of_strip _ (String c (r ++ (if glue then "<>" else ""))%string)).
+  - apply strip_fixed; [simpl; rewrite H0; reflexivity|exact Hr].
+  - apply fneutral_head; assumption.
+Qed.
+
+Section Balanced.
+Variable pp : pyparse.
+
+Lemma forall_items_split : forall (P : item -> Prop) body, Forall P body ->
+  forallb (item_ok pp false) body = true -> Forall uline_ok (print_items body) ->
+  Forall (fun it => P it /\ item_lines_ok pp it) body.
+Proof.
+  induction 1 as [|it body Hp _ IH]; intros Hok Hu; [constructor|].
+  cbn [forallb] in Hok. apply andb_prop in Hok. destruct Hok as [Hi Hok].
+  cbn [print_items] in Hu. apply Forall_app in Hu. destruct Hu as [Hu1 Hu2].
+  constructor; [split; [exact Hp|split; assumption]|apply IH; assumption].
+Qed.
+
+Lemma items_fbal : forall it, item_lines_ok pp it -> forall q, pfx q -> fbal (map (indp q) (print_item it)).
+Proof.
+  induction it using ReferenceProofs.item_ind'; intros [Hok Hu] q Hq; cbn [item_ok] in Hok.
+  - (* text *)
+    cbn [print_item map] in *. inversion Hu as [|? ? Hl _]; subst.
+    apply fb_neutral; [|constructor]. apply fneutral_indp; [exact Hq|]. apply text_item_neutral; assumption.
+  - cbn [print_item map indp]. apply fb_neutral; [|constructor]. neutral_known.
+  - cbn [print_item map] in *. inversion Hu as [|? ? [_ Hr] _]; subst.
+    apply fb_neutral; [|constructor]. apply fneutral_indp; [exact Hq|].
+    neutral_strip Hr. apply fneutral_head; reflexivity.
+  - (* py *)
+    apply fbal_neutrals. cbn [print_item]. rewrite !map_app. apply Forall_app. split; [|apply Forall_app; split].
+    + constructor; [|constructor]. apply fneutral_indp; [exact Hq|]. neutral_known.
+    + apply Forall_forall. intros l Hl. apply in_map_iff in Hl. destruct Hl as [l0 [<- Hl0]].
+      apply fneutral_indp; [exact Hq|]. pose proof (py_lines_neutral c Hok) as F. rewrite Forall_forall in F. apply F, Hl0.
+    + constructor; [|constructor]. apply fneutral_indp; [exact Hq|]. neutral_known.
+  - (* if *)
+    apply andb_prop in Hok. destruct Hok as [_ Hok]. rewrite print_item_if in *. rewrite map_app.
+    apply fbal_app; [|apply fb_neutral; [apply fneutral_indp; [exact Hq|neutral_known]|constructor]].
+    apply Forall_app in Hu. destruct Hu as [Hu _].
+    assert (G : forall first : bool,
+              forallb (fun b : string * list item * list schoice =>
+                         match b with (cond, body, chs) =>
+                           cond_header_ok cond && forallb (item_ok pp false) body && forallb inner_choice_ok chs end) brs = true ->
+              Forall uline_ok (print_branches brs first) -> fbal (map (indp q) (print_branches brs first)));
+      [|apply G; assumption].
+    clear Hok Hu.
+    induction H as [|[[c0 b0] ch0] r Hb _ IHr]; intros first Hok Hu; [constructor|].
+    cbn [forallb] in Hok. apply andb_prop in Hok. destruct Hok as [Hb0 Hok].
+    do 2 (apply andb_prop in Hb0; destruct Hb0 as [Hb0 ?]). rename H into Hch0. rename H0 into Hbody0.
+    rewrite print_branches_cons in Hu |- *. inversion Hu as [|? ? Hlh Hu']; subst.
+    apply Forall_app in Hu'. destruct Hu' as [Hub Hu']. apply Forall_app in Hu'. destruct Hu' as [Huc Hur].
+    cbn [map]. rewrite !map_app. apply fb_neutral.
+    + apply fneutral_indp; [exact Hq|]. destruct Hlh as [_ Hr]. unfold if_header in *.
+      destruct (negb first && String.eqb c0 "True"); [neutral_known|].
+      destruct first; (neutral_strip Hr; apply conj; [reflexivity|split; reflexivity]).
+    + apply fbal_app; [|apply fbal_app; [|apply (IHr false Hok Hur)]].
+      * rewrite map_indp_nonempty. pose proof (ulines_of_nonempty _ Hub) as Hub'.
+        cbn [snd fst] in Hb. clear - Hb Hbody0 Hub' Hq.
+        induction Hb as [|it body Hit _ IHb]; [constructor|]. cbn [forallb] in Hbody0. apply andb_prop in Hbody0.
+        destruct Hbody0 as [Hi Hbody0]. cbn [print_items] in *. apply Forall_app in Hub'. destruct Hub' as [U1 U2].
+        rewrite map_app. apply fbal_app; [apply Hit; [split; assumption|apply pfx_ind4, Hq]|apply IHb; assumption].
+      * rewrite map_indp_always. apply fbal_neutrals.
+        pose proof (choices_neutral ch0 Hch0 (ulines_of_always _ Huc)) as F.
+        apply Forall_forall. intros l Hl. apply in_map_iff in Hl. destruct Hl as [l0 [<- Hl0]].
+        rewrite Forall_forall in F. specialize (F l0 Hl0). unfold fneutral in *.
+        destruct (pfx_ind4 q Hq) as [Hq1 _]. rewrite (strip_app_ws _ l0 Hq1). exact F.
+  - (* for *)
+    do 3 (apply andb_prop in Hok; destruct Hok as [Hok ?]). rename H0 into Hch. rename H1 into Hbody. rename H2 into Hc.
+    rewrite print_item_for in *. inversion Hu as [|? ? Hlh Hu']; subst.
+    apply Forall_app in Hu'. destruct Hu' as [Hub Hu']. apply Forall_app in Hu'. destruct Hu' as [Huc _].
+    cbn [map]. rewrite !map_app. rewrite List.app_assoc. cbn [map indp].
+    apply (fb_block _ _ (q ++ "@endfor")%string []).
+    + destruct Hlh as [_ Hr]. unfold fheader.
+      change (indp q ("@for " ++ v ++ " in " ++ c ++ ":")%string) with (q ++ "@for " ++ v ++ " in " ++ c ++ ":")%string.
+      rewrite (strip_pfx q ("@for " ++ v ++ " in " ++ c ++ ":")%string Hq eq_refl Hr).
+      split; [reflexivity|unfold PB.is_for_line; cbn [startswith append]; rewrite ?startswith_nil; reflexivity].
+    + apply fbal_app.
+      * rewrite map_indp_nonempty. pose proof (ulines_of_nonempty _ Hub) as Hub'. clear - H Hbody Hub' Hq.
+        induction H as [|it body Hit _ IHb]; [constructor|]. cbn [forallb] in Hbody. apply andb_prop in Hbody.
+        destruct Hbody as [Hi Hbody]. cbn [print_items] in *. apply Forall_app in Hub'. destruct Hub' as [U1 U2].
+        rewrite map_app. apply fbal_app; [apply Hit; [split; assumption|apply pfx_ind4, Hq]|apply IHb; assumption].
+      * rewrite map_indp_always. apply fbal_neutrals.
+        pose proof (choices_neutral chs Hch (ulines_of_always _ Huc)) as F.
+        apply Forall_forall. intros l Hl. apply in_map_iff in Hl. destruct Hl as [l0 [<- Hl0]].
+        rewrite Forall_forall in F. specialize (F l0 Hl0). unfold fneutral in *.
+        destruct (pfx_ind4 q Hq) as [Hq1 _]. rewrite (strip_app_ws _ l0 Hq1). exact F.
+    + unfold fcloser. destruct Hq as [Hq1 _]. rewrite (strip_app_ws q _ Hq1). repeat split; reflexivity.
+    + constructor.
+  - (* jump *)
+    cbn [print_item map] in *. inversion Hu as [|? ? [_ Hr] _]; subst.
+    apply fb_neutral; [|constructor]. apply fneutral_indp; [exact Hq|].
+    neutral_strip Hr. apply fneutral_head; reflexivity.
+  - cbn [print_item map] in *. inversion Hu as [|? ? [_ Hr] _]; subst.
+    apply fb_neutral; [|constructor]. apply fneutral_indp; [exact Hq|].
+    neutral_strip Hr. neutral_known.
+  - cbn [print_item map] in *. inversion Hu as [|? ? [_ Hr] _]; subst.
+    apply fb_neutral; [|constructor]. apply fneutral_indp; [exact Hq|].
+    neutral_strip Hr. neutral_known.
+  - cbn [print_item map] in *. inversion Hu as [|? ? [_ Hr] _]; subst.
+    apply fb_neutral; [|constructor]. apply fneutral_indp; [exact Hq|]. destruct a.
+    + neutral_strip Hr. neutral_known.
+    + neutral_strip Hr. neutral_known.
+  - discriminate.
+Qed.
+
+End Balanced.
+
+(* ===== part 20 ===== *)
+Local Open Scope string_scope.
+Local Open Scope nat_scope.
+Local Open Scope list_scope.
+
+(* ------------------------------------------------------------------------------------------- *)
+(* the second loop of extract_loop_block, over the dedented body                                *)
+(* ------------------------------------------------------------------------------------------- *)
+Inductive lkind :=
+| LComment | LPy | LInput | LRender | LHook | LUnhook | LStmt | LFor | LIf | LJump | LChoice | LText.
+
+Definition classify_l (line : string) : lkind :=
+  let stripped := strip line in
+  if startswith stripped "#" then LComment
+  else if PB.is_py_line stripped then LPy
+  else if startswith stripped "@input" then LInput
+  else if startswith stripped "@render" then LRender
+  else if startswith stripped "@hook " then LHook
+  else if startswith stripped "@unhook " then LUnhook
+  else if startswith line "~ " then LStmt
+  else if PB.is_for_line stripped then LFor
+  else if PB.is_if_line stripped then LIf
+  else if startswith stripped "->" then LJump
+  else if PB.is_choice_line stripped then LChoice
+  else LText.
+
+Ltac lchain H :=
+  unfold classify_l in H; unfold PB.body_step; cbv zeta in H |- *;
+  repeat match type of H with
+  | (if ?b then _ else _) = _ => destruct b eqn:?; try discriminate H
+  end.
+
+Ltac kind_l := unfold classify_l, PB.is_py_line, PB.is_if_line, PB.is_for_line, PB.is_choice_line;
+               cbv zeta; cbn [startswith append]; rewrite ?startswith_nil; reflexivity.
+
+Section LoopCtx.
+Variable pp : pyparse.
+Variable rec_cond rec_loop : list string -> nat -> pres (token * nat).
+Notation bstep := (PB.body_step true rlf rec_cond rec_loop).
+Notation bgo := (PB.body_go true rlf rec_cond rec_loop).
+
+Lemma bstep_text : forall ded j line content chs, classify_l line = LText ->
+  bstep ded j line content chs =
+  (let* content' := PB.content_line_glue rlf content line in POk (content', chs, 1)).
+Proof. intros ded j line content chs H. lchain H. reflexivity. Qed.
+
+Lemma bstep_stmt : forall ded j line content chs, classify_l line = LStmt ->
+  bstep ded j line content chs =
+  (let ck := PB.py_statement rlf ded j (drop 2 line) in POk (content ++ [TPyStmt (fst ck)], chs, snd ck)).
+Proof. intros ded j line content chs H. lchain H. reflexivity. Qed.
+
+Lemma bstep_py : forall ded j line content chs, classify_l line = LPy ->
+  bstep ded j line content chs =
+  (let* ck := PB.extract_python_block_v true ded j in POk (content ++ [TPyBlock (fst ck)], chs, snd ck)).
+Proof. intros ded j line content chs H. lchain H. reflexivity. Qed.
+
+Lemma bstep_input : forall ded j line content chs, classify_l line = LInput ->
+  bstep ded j line content chs =
+  (let* d := PB.lf_input rlf line in POk (match d with Some t => content ++ [t] | None => content end, chs, 1)).
+Proof. intros ded j line content chs H. lchain H. reflexivity. Qed.
+
+Lemma bstep_render : forall ded j line content chs, classify_l line = LRender ->
+  bstep ded j line content chs =
+  (let* d := PB.lf_render rlf line in POk (match d with Some t => content ++ [t] | None => content end, chs, 1)).
+Proof. intros ded j line content chs H. lchain H. reflexivity. Qed.
+
+Lemma bstep_hook : forall ded j line content chs, classify_l line = LHook ->
+  bstep ded j line content chs =
+  POk (match PB.hook_parts (strip line) with Some (e, t) => content ++ [THook true e t] | None => content end, chs, 1).
+Proof. intros ded j line content chs H. lchain H. reflexivity. Qed.
+
+Lemma bstep_unhook : forall ded j line content chs, classify_l line = LUnhook ->
+  bstep ded j line content chs =
+  POk (match PB.hook_parts (strip line) with Some (e, t) => content ++ [THook false e t] | None => content end, chs, 1).
+Proof. intros ded j line content chs H. lchain H. reflexivity. Qed.
+
+Lemma bstep_for : forall ded j line content chs, classify_l line = LFor ->
+  bstep ded j line content chs = (let* tk := rec_loop ded j in POk (content ++ [fst tk], chs, snd tk)).
+Proof. intros ded j line content chs H. lchain H. reflexivity. Qed.
+
+Lemma bstep_if : forall ded j line content chs, classify_l line = LIf ->
+  bstep ded j line content chs = (let* tk := rec_cond ded j in POk (content ++ [fst tk], chs, snd tk)).
+Proof. intros ded j line content chs H. lchain H. reflexivity. Qed.
+
+Lemma bstep_jump : forall ded j line content chs, classify_l line = LJump ->
+  bstep ded j line content chs =
+  POk (match PB.jump_of rlf (strip line) with Some ta => content ++ [TJump (fst ta) (snd ta)] | None => content end, chs, 1).
+Proof. intros ded j line content chs H. lchain H. reflexivity. Qed.
+
+Lemma bstep_choice : forall ded j line content chs, classify_l line = LChoice ->
+  bstep ded j line content chs =
+  (let* ch := PB.lf_choice rlf (strip line) in POk (content, match ch with Some c => chs ++ [c] | None => chs end, 1)).
+Proof. intros ded j line content chs H. lchain H. reflexivity. Qed.
+
+Lemma bgo_step : forall ded line rest j content chs content' chs' k,
+  bstep ded j line content chs = POk (content', chs', S k) ->
+  bgo ded (line :: rest) j 0 content chs = bgo ded rest (S j) k content' chs'.
+Proof. intros ded line rest j content chs content' chs' k H. cbn [PB.body_go]. rewrite H. reflexivity. Qed.
+
+Lemma bgo_skip : forall ded L rest j content chs,
+  bgo ded (L ++ rest) j (List.length L) content chs = bgo ded rest (j + List.length L) 0 content chs.
+Proof.
+  intros ded L. induction L as [|l L IH]; intros rest j content chs.
+  - cbn [app List.length]. rewrite Nat.add_0_r. reflexivity.
+  - cbn [app List.length PB.body_go]. rewrite IH. f_equal. lia.
+Qed.
+
+(* an item's lines (at column 0 of the dedented body) append c_item it to the content *)
+Definition loop_item_steps (it : item) : Prop :=
+  forall ded j rest content chs,
+    skipn j ded = print_item it ++ rest -> j <= List.length ded ->
+    bgo ded (print_item it ++ rest) j 0 content chs =
+    bgo ded rest (j + List.length (print_item it)) 0 (content ++ c_item it) chs.
+
+Notation litem := loop_item_steps.
+
+Lemma loop_single : forall it l, print_item it = [l] ->
+  (forall ded j content chs, bstep ded j l content chs = POk (content ++ c_item it, chs, 1)) -> litem it.
+Proof.
+  intros it l Hp Hs ded j rest content chs Hsk Hj. rewrite Hp. cbn [app List.length].
+  rewrite (bgo_step ded l rest j content chs _ _ 0 (Hs ded j content chs)). rewrite Nat.add_1_r. reflexivity.
+Qed.
+
+Lemma classify_l_plain : forall c r, bad_start c = false -> rstrip (String c r) = String c r ->
+  classify_l (String c r) = LText.
+Proof.
+  intros c r H Hr. destruct (bad_start_facts c H) as [H0 [H1 [H2 [H3 [H4 [H5 [H6 [H7 H8]]]]]]]].
+  unfold classify_l. cbv zeta. rewrite strip_fixed; [|simpl; rewrite H0; reflexivity|exact Hr].
+  unfold PB.is_py_line, PB.is_if_line, PB.is_for_line, PB.is_choice_line.
+  cbn [startswith String.eqb]. unfold ascii_eqb. rewrite ?H1, ?H2, ?H3, ?H4, ?H5, ?H6, ?H7, ?H8. reflexivity.
+Qed.
+
+Lemma loop_textish : forall it, textish it = true ->
+  (forall ps g, it = IText ps g -> text_line_ok ps g = true) -> Forall uline_ok (print_item it) -> litem it.
+Proof.
+  intros it Ht Hok Hul. destruct it; try discriminate.
+  - cbn [print_item] in Hul. inversion Hul as [|? ? Hl _]; subst.
+    apply (loop_single (IText ps glue) _ eq_refl). intros ded j content chs.
+    destruct (text_line_parts ps glue (Hok _ _ eq_refl) Hl) as [_ [_ [_ [[c [r [E Hc]]] _]]]].
+    assert (K : classify_l (print_pieces ps ++ (if glue then "<>" else ""))%string = LText).
+    { destruct Hl as [_ Hr]. rewrite E in *. cbn [append] in *. apply classify_l_plain; assumption. }
+    rewrite (bstep_text ded j _ content chs K).
+    rewrite (content_line_glue_text ps glue content (Hok _ _ eq_refl) Hl). reflexivity.
+  - apply (loop_single IBlank _ eq_refl). intros ded j content chs.
+    rewrite (bstep_text ded j "" content chs eq_refl). reflexivity.
+Qed.
+
+Lemma loop_stmt : forall c, stmt_ok pp c = true -> Forall uline_ok (print_item (IStmt c)) -> litem (IStmt c).
+Proof.
+  intros c Hok Hul. cbn [print_item] in Hul. inversion Hul as [|? ? Hl _]; subst.
+  destruct (stmt_ok_weaken pp c Hok) as [Hn [Ht Ho]]. destruct (stmt_line_facts c Hn Ht Hl) as [F1 [F2 F3]].
+  apply (loop_single (IStmt c) _ eq_refl). intros ded j content chs. destruct Hl as [_ Hr].
+  assert (K : classify_l ("~ " ++ c)%string = LStmt).
+  { unfold classify_l. cbv zeta. rewrite (strip_fixed ("~ " ++ c)%string eq_refl Hr).
+    unfold PB.is_py_line. cbn [startswith append]. rewrite ?startswith_nil. reflexivity. }
+  rewrite (bstep_stmt ded j _ content chs K). change (drop 2 ("~ " ++ c)%string) with c.
+  rewrite (py_statement_one ded j c Ht Ho F3). reflexivity.
+Qed.
+
+Lemma loop_jump : forall t a, valid_passage_pattern t = true -> paren_free a = true ->
+  Forall uline_ok (print_item (IJump t a)) -> litem (IJump t a).
+Proof.
+  intros t a Ht Ha Hul. cbn [print_item] in Hul. inversion Hul as [|? ? Hl _]; subst.
+  apply (loop_single (IJump t a) _ eq_refl). intros ded j content chs. pose proof Hl as [_ Hr].
+  assert (Sq : strip ("-> " ++ t ++ print_args a)%string = ("-> " ++ t ++ print_args a)%string)
+    by (apply strip_fixed; [reflexivity|exact Hr]).
+  rewrite (bstep_jump ded j _ content chs) by (unfold classify_l, PB.is_py_line, PB.is_if_line, PB.is_for_line, PB.is_choice_line; cbv zeta; rewrite Sq; cbn [startswith append]; rewrite ?startswith_nil; reflexivity).
+  rewrite Sq, (jump_of_print t a Ht Ha Hl). reflexivity.
+Qed.
+
+Lemma loop_render : forall n a, render_ok n a = true -> Forall uline_ok (print_item (IRender n a)) -> litem (IRender n a).
+Proof.
+  intros n a Hok Hul. cbn [print_item] in Hul. inversion Hul as [|? ? Hl _]; subst.
+  apply (loop_single (IRender n a) _ eq_refl). intros ded j content chs. pose proof Hl as [_ Hr].
+  assert (Sq : strip ("@render " ++ n ++ "(" ++ a ++ ")")%string = ("@render " ++ n ++ "(" ++ a ++ ")")%string)
+    by (apply strip_fixed; [reflexivity|exact Hr]).
+  rewrite (bstep_render ded j _ content chs) by (unfold classify_l, PB.is_py_line, PB.is_if_line, PB.is_for_line, PB.is_choice_line; cbv zeta; rewrite Sq; cbn [startswith append]; rewrite ?startswith_nil; reflexivity).
+  cbn [PB.lf_render rlf]. pose proof (render_line_print "" n a pfx_nil Hok Hl) as R.
+  change (parse_render_line false ("@render " ++ n ++ "(" ++ a ++ ")")%string)
+    with (parse_render_line false ("" ++ "@render " ++ n ++ "(" ++ a ++ ")")%string). rewrite R.
+  reflexivity.
+Qed.
+
+Lemma loop_input : forall attrs, input_ok attrs = true -> Forall uline_ok (print_item (IInput attrs)) -> litem (IInput attrs).
+Proof.
+  intros attrs Hok Hul. cbn [print_item] in Hul. inversion Hul as [|? ? Hl _]; subst.
+  apply (loop_single (IInput attrs) _ eq_refl). intros ded j content chs. pose proof Hl as [_ Hr].
+  assert (Sq : strip ("@input name=" ++ String dquote (input_name attrs ++ String dquote ""))%string =
+               ("@input name=" ++ String dquote (input_name attrs ++ String dquote ""))%string)
+    by (apply strip_fixed; [reflexivity|exact Hr]).
+  rewrite (bstep_input ded j _ content chs) by (unfold classify_l, PB.is_py_line, PB.is_if_line, PB.is_for_line, PB.is_choice_line; cbv zeta; rewrite Sq; cbn [startswith append]; rewrite ?startswith_nil; reflexivity).
+  cbn [PB.lf_input rlf]. pose proof (input_line_print "" attrs pfx_nil Hok Hl) as R.
+  change (parse_input_line false ("@input name=" ++ String dquote (input_name attrs ++ String dquote ""))%string)
+    with (parse_input_line false ("" ++ "@input name=" ++ String dquote (input_name attrs ++ String dquote ""))%string).
+  rewrite R. reflexivity.
+Qed.
+
+Lemma loop_hook : forall (add : bool) e t, word_ok e = true -> word_ok t = true ->
+  Forall uline_ok (print_item (IHook add e t)) -> litem (IHook add e t).
+Proof.
+  intros add e t He Ht Hul. cbn [print_item] in Hul. inversion Hul as [|? ? Hl _]; subst.
+  apply (loop_single (IHook add e t) _ eq_refl). intros ded j content chs. pose proof Hl as [_ Hr].
+  assert (Sq : strip ((if add then "@hook " else "@unhook ") ++ e ++ " " ++ t)%string =
+               ((if add then "@hook " else "@unhook ") ++ e ++ " " ++ t)%string)
+    by (apply strip_fixed; [destruct add; reflexivity|exact Hr]).
+  destruct add.
+  - rewrite (bstep_hook ded j _ content chs) by (unfold classify_l, PB.is_py_line, PB.is_if_line, PB.is_for_line, PB.is_choice_line; cbv zeta; rewrite Sq; cbn [startswith append]; rewrite ?startswith_nil; reflexivity).
+    rewrite Sq, (hook_parts_print true e t He Ht). reflexivity.
+  - rewrite (bstep_unhook ded j _ content chs) by (unfold classify_l, PB.is_py_line, PB.is_if_line, PB.is_for_line, PB.is_choice_line; cbv zeta; rewrite Sq; cbn [startswith append]; rewrite ?startswith_nil; reflexivity).
+    rewrite Sq, (hook_parts_print false e t He Ht). reflexivity.
+Qed.
+
+(* blocks in the body: one step, then the lines are skipped *)
+Lemma loop_block : forall it l more tok, print_item it = l :: more -> c_item it = [tok] ->
+  (forall ded j content chs, (exists pre post, ded = pre ++ print_item it ++ post /\ List.length pre = j) ->
+     bstep ded j l content chs = POk (content ++ [tok], chs, List.length (print_item it))) -> litem it.
+Proof.
+  intros it l more tok Hp Hc Hs ded j rest content chs Hsk Hj.
+  destruct (split_at ded j _ _ Hsk Hj) as [EL Elen].
+  pose proof (Hs ded j content chs ltac:(exists (firstn j ded), rest; split; assumption)) as St.
+  rewrite Hp in *. cbn [app List.length] in *.
+  rewrite (bgo_step ded l (more ++ rest) j content chs _ _ _ St). rewrite bgo_skip, Hc. f_equal. lia.
+Qed.
+
+Lemma map_indp_nil : forall L, map (indp "") L = L.
+Proof. intros L. rewrite <- (map_id L) at 2. apply map_ext. apply indp_nil_prefix. Qed.
+
+Lemma loop_py : forall c, py_ok c = true -> litem (IPy c).
+Proof.
+  intros c Hok. apply (loop_block (IPy c) "@py:"%string (split_char c nlc ++ ["@endpy"]) (TPyBlock c) eq_refl eq_refl).
+  intros ded j content chs [pre [post [EL Elen]]].
+  rewrite (bstep_py ded j "@py:" content chs eq_refl).
+  pose proof (py_block_at "" c pre post pfx_nil Hok) as P. rewrite map_indp_nil in P.
+  rewrite EL, <- Elen, P. reflexivity.
+Qed.
+
+Lemma loop_nested_if : forall brs tok, brs <> [] ->
+  Forall uline_ok (print_item (IIf brs)) -> c_item (IIf brs) = [tok] ->
+  rec_gives rec_cond "" (IIf brs) tok -> litem (IIf brs).
+Proof.
+  intros brs tok Hne Hul Hc Hrec. destruct brs as [|[[c0 b0] ch0] r]; [congruence|].
+  assert (Ep : print_item (IIf ((c0, b0, ch0) :: r)) =
+               ("@if " ++ c0 ++ ":")%string :: (map indent_nonempty (print_items b0) ++ map indent_always (print_choices ch0) ++
+                                               print_branches r false) ++ ["@endif"]).
+  { rewrite print_item_if, print_branches_cons. reflexivity. }
+  rewrite Ep in Hul. inversion Hul as [|? ? Hl _]; subst.
+  apply (loop_block _ _ _ tok Ep Hc). intros ded j content chs [pre [post [EL Elen]]]. destruct Hl as [_ Hr].
+  assert (Sq : strip ("@if " ++ c0 ++ ":")%string = ("@if " ++ c0 ++ ":")%string)
+    by (apply strip_fixed; [reflexivity|exact Hr]).
+  rewrite (bstep_if ded j _ content chs)
+    by (unfold classify_l, PB.is_py_line, PB.is_for_line, PB.is_if_line; cbv zeta; rewrite Sq;
+        cbn [startswith append]; rewrite ?startswith_nil; reflexivity).
+  pose proof (Hrec pre post) as P. rewrite map_indp_nil in P. rewrite EL, <- Elen, P. reflexivity.
+Qed.
+
+Lemma loop_nested_for : forall v c body chs tok,
+  Forall uline_ok (print_item (IFor v c body chs)) -> c_item (IFor v c body chs) = [tok] ->
+  rec_gives rec_loop "" (IFor v c body chs) tok -> litem (IFor v c body chs).
+Proof.
+  intros v c body chs tok Hul Hc Hrec. pose proof (print_item_for v c body chs) as Ep.
+  rewrite Ep in Hul. inversion Hul as [|? ? Hl _]; subst.
+  apply (loop_block _ _ _ tok Ep Hc). intros ded j content chs' [pre [post [EL Elen]]]. destruct Hl as [_ Hr].
+  assert (Sq : strip ("@for " ++ v ++ " in " ++ c ++ ":")%string = ("@for " ++ v ++ " in " ++ c ++ ":")%string)
+    by (apply strip_fixed; [reflexivity|exact Hr]).
+  rewrite (bstep_for ded j _ content chs')
+    by (unfold classify_l, PB.is_py_line, PB.is_for_line, PB.is_if_line; cbv zeta; rewrite Sq;
+        cbn [startswith append]; rewrite ?startswith_nil; reflexivity).
+  pose proof (Hrec pre post) as P. rewrite map_indp_nil in P. rewrite EL, <- Elen, P. reflexivity.
+Qed.
+
+(* ---- the items and the choices of the body ---- *)
+Lemma loop_items_run : forall body, Forall litem body ->
+  forall ded j rest content chs, skipn j ded = print_items body ++ rest -> j <= List.length ded ->
+    bgo ded (print_items body ++ rest) j 0 content chs =
+    bgo ded rest (j + List.length (print_items body)) 0 (content ++ c_items body) chs.
+Proof.
+  intros body H. induction H as [|it body Hit _ IH]; intros ded j rest content chs Hsk Hj.
+  - cbn [print_items app List.length c_items]. rewrite Nat.add_0_r, List.app_nil_r. reflexivity.
+  - cbn [print_items c_items] in *. rewrite <- List.app_assoc in Hsk |- *.
+    rewrite (Hit ded j _ content chs Hsk Hj). destruct (skipn_more ded j _ _ Hsk Hj) as [Hsk2 Hj2].
+    rewrite (IH ded _ rest _ chs Hsk2 Hj2). rewrite app_length, Nat.add_assoc, <- List.app_assoc. reflexivity.
+Qed.
+
+Lemma loop_choices_run : forall chs, forallb inner_choice_ok chs = true -> Forall uline_ok (print_choices chs) ->
+  forall ded j rest content acc, skipn j ded = print_choices chs ++ rest -> j <= List.length ded ->
+    bgo ded (print_choices chs ++ rest) j 0 content acc =
+    bgo ded rest (j + List.length (print_choices chs)) 0 content (acc ++ map (c_choice 0) chs).
+Proof.
+  induction chs as [|ch chs IH]; intros Hok Hul ded j rest content acc Hsk Hj.
+  - cbn [print_choices app List.length map]. rewrite Nat.add_0_r, List.app_nil_r. reflexivity.
+  - cbn [forallb] in Hok. apply andb_prop in Hok. destruct Hok as [Hch Hok].
+    cbn [print_choices] in *. apply Forall_app in Hul. destruct Hul as [Hu1 Hu2].
+    assert (Hl1 : lines_ok (print_choice ch)) by (eapply Forall_impl; [|exact Hu1]; apply uline_line_ok).
+    destruct (inner_choice_print ch Hch Hl1) as [l [Ep [Hns [Hlo Hpc]]]]. rewrite Ep in *.
+    cbn [app List.length] in *. destruct (line_ok_parts _ Hlo) as [Hcl Hrs].
+    assert (Sq : strip l = l) by (apply strip_fixed; assumption).
+    assert (K : classify_l l = LChoice).
+    { destruct ch as [tx tg ar cd stk blk]. cbn [print_choice] in Ep. injection Ep as <-. rewrite choice_line_eq in *.
+      unfold classify_l. cbv zeta. rewrite Sq. destruct stk;
+        unfold PB.is_py_line, PB.is_if_line, PB.is_for_line, PB.is_choice_line; cbn [startswith append];
+        rewrite ?startswith_nil; reflexivity. }
+    assert (St : bstep ded j l content acc = POk (content, acc ++ [c_choice 0 ch], 1)).
+    { rewrite (bstep_choice ded j l content acc K). rewrite Sq. cbn [PB.lf_choice rlf]. rewrite Hpc. reflexivity. }
+    rewrite (bgo_step ded l _ j content acc _ _ 0 St).
+    destruct (skipn_more ded j [l] _ Hsk Hj) as [Hsk2 Hj2]. cbn [List.length] in Hsk2, Hj2. rewrite Nat.add_1_r in Hsk2, Hj2.
+    rewrite (IH Hok Hu2 ded (S j) rest content _ Hsk2 Hj2). cbn [map]. rewrite <- List.app_assoc. cbn [app].
+    f_equal. lia.
+Qed.
+
+End LoopCtx.
+
+(* ===== part 21 ===== *)
+Local Open Scope string_scope.
+Local Open Scope nat_scope.
+Local Open Scope list_scope.
+
+(* ------------------------------------------------------------------------------------------- *)
+(* the first non-empty line of a block body                                                     *)
+(* ------------------------------------------------------------------------------------------- *)
+Fixpoint first_both (L : list string) : Prop :=
+  match L with
+  | [] => True
+  | l :: r => match l with
+              | EmptyString => first_both r
+              | _ => starts_ns l = true /\ startswith l "#" = false
+              end
+  end.
+
+Lemma first_both_ns : forall L, first_both L -> first_ns L.
+Proof. induction L as [|l r IH]; intros H; [exact I|]. destruct l; cbn in *; [apply IH, H|tauto]. Qed.
+
+Lemma first_both_app : forall a b, first_both a -> (Forall (fun l => l = ""%string) a -> first_both b) -> first_both (a ++ b).
+Proof.
+  induction a as [|l r IH]; intros b Ha Hb; [apply Hb; constructor|].
+  destruct l as [|c s]; cbn [app first_both] in *.
+  - apply IH; [exact Ha|]. intros F. apply Hb. constructor; [reflexivity|exact F].
+  - exact Ha.
+Qed.
+
+Lemma first_both_cons : forall l r, starts_ns l = true -> startswith l "#" = false -> first_both (l :: r).
+Proof. intros [|c s] r H1 H2; [discriminate|]. cbn. split; assumption. Qed.
+
+Section FirstLine.
+Variable pp : pyparse.
+
+Lemma item_first_line : forall it, item_ok pp false it = true -> Forall uline_ok (print_item it) ->
+  first_both (print_item it).
+Proof.
+  intros it Hok Hu. destruct it as [ps glue| |c|c|brs|v c body chs|t a|n a|attrs|add e t|]; cbn [item_ok] in Hok.
+  - cbn [print_item] in *. inversion Hu as [|? ? Hl _]; subst.
+    destruct (text_line_parts ps glue Hok Hl) as [_ [_ [_ [[ch [r [E Hc]]] _]]]]. rewrite E. cbn [append].
+    destruct (bad_start_facts ch Hc) as [H0 [H1 _]]. cbn. unfold ascii_eqb. rewrite H0, H1. split; reflexivity.
+  - exact I.
+  - cbn. split; reflexivity.
+  - cbn. split; reflexivity.
+  - rewrite print_item_if. destruct brs as [|[[c0 b0] ch0] r]; [discriminate|]. rewrite print_branches_cons.
+    unfold if_header. cbn [negb andb app]. cbn. split; reflexivity.
+  - rewrite print_item_for. cbn. split; reflexivity.
+  - cbn. split; reflexivity.
+  - cbn. split; reflexivity.
+  - cbn. split; reflexivity.
+  - destruct add; cbn; split; reflexivity.
+  - discriminate.
+Qed.
+
+Lemma print_item_nonnil : forall it, print_item it <> [].
+Proof.
+  intros it. destruct it as [ps glue| |c|c|brs|v c body chs|t a|n a|attrs|add e t|]; cbn [print_item]; try discriminate.
+  - destruct brs as [|[[c0 b0] ch0] r]; cbn; discriminate.
+Qed.
+
+Lemma all_empty_first : forall L, Forall (fun l => l = ""%string) L -> first_both L.
+Proof. induction 1 as [|l r Hl _ IH]; [exact I|]. subst l. exact IH. Qed.
+
+Lemma items_first : forall body X, forallb (item_ok pp false) body = true -> Forall uline_ok (print_items body) ->
+  first_both X -> first_both (print_items body ++ X).
+Proof.
+  induction body as [|it body IH]; intros X Hok Hu HX; [exact HX|].
+  cbn [forallb] in Hok. apply andb_prop in Hok. destruct Hok as [Hi Hok].
+  cbn [print_items] in *. apply Forall_app in Hu. destruct Hu as [Hu1 Hu2].
+  rewrite <- List.app_assoc. apply first_both_app; [apply item_first_line; assumption|].
+  intros _. apply IH; assumption.
+Qed.
+
+Lemma choices_first : forall chs, forallb inner_choice_ok chs = true -> first_both (print_choices chs).
+Proof.
+  intros [|[tx tg ar cd stk blk] chs] H; [exact I|]. cbn [print_choices print_choice app].
+  rewrite choice_line_eq. destruct stk; cbn; split; reflexivity.
+Qed.
+
+End FirstLine.
+
+Lemma dlc_identity : forall q L, pfx q -> Forall solid L -> first_both L ->
+  PB.drop_leading_comments (map (indp q) L) = map (indp q) L.
+Proof.
+  intros q L Hq. induction L as [|l r IH]; intros Hs Hf; [reflexivity|].
+  inversion Hs as [|? ? Hl Hr]; subst. destruct l as [|c s].
+  - cbn [map indp PB.drop_leading_comments]. replace (startswith (strip "") "#") with false by reflexivity.
+    replace (negb (PB.nonempty (strip ""))) with true by reflexivity. cbn [first_both] in Hf. rewrite (IH Hr Hf). reflexivity.
+  - cbn [first_both] in Hf. destruct Hf as [F1 F2]. cbn [map indp PB.drop_leading_comments].
+    destruct Hq as [Hq1 _]. rewrite (strip_app_ws q _ Hq1).
+    assert (E : exists r', strip (String c s) = String c r').
+    { simpl in F1. apply negb_true_iff in F1. rewrite (strip_cons_ne c s F1). eauto. }
+    destruct E as [r' E]. rewrite E. cbn [startswith] in F2 |- *. cbn [PB.nonempty negb].
+    destruct (ascii_eqb c "#"); [|reflexivity]. cbn [andb] in F2. rewrite startswith_nil in F2. discriminate.
+Qed.
+
+Lemma map_always_indp : forall q C, Forall (fun l => l <> ""%string) C ->
+  map (fun l => (q ++ l)%string) C = map (indp q) C.
+Proof.
+  intros q C H. apply map_ext_in. intros l Hl. rewrite Forall_forall in H. symmetry. apply indp_ne, H, Hl.
+Qed.
+
+Lemma choices_nonempty : forall chs, Forall (fun l => l <> ""%string) (print_choices chs) \/ True.
+Proof. right. exact I. Qed.
+
+Lemma first_both_nonempty_lines : forall chs, forallb inner_choice_ok chs = true ->
+  Forall (fun l => l <> ""%string) (print_choices chs).
+Proof.
+  induction chs as [|[tx tg ar cd stk blk] chs IH]; intros H; [constructor|].
+  cbn [forallb] in H. apply andb_prop in H. destruct H as [Hc H]. cbn [inner_choice_ok] in Hc.
+  apply andb_prop in Hc. destruct Hc as [_ Hb]. destruct blk; [|discriminate].
+  cbn [print_choices print_choice print_items map app]. constructor; [|apply IH, H].
+  rewrite choice_line_eq. destruct stk; discriminate.
+Qed.
+
+(* ------------------------------------------------------------------------------------------- *)
+(* the whole @for block                                                                         *)
+(* ------------------------------------------------------------------------------------------- *)
+Section LoopBlock.
+Variable pp : pyparse.
+Variable rec_cond rec_loop : list string -> nat -> pres (token * nat).
+
+Lemma loop_body_print : forall q v c body chs pre post, pfx q ->
+  word_ok v = true -> cond_header_ok c = true ->
+  Forall (loop_item_steps rec_cond rec_loop) body -> forallb (item_ok pp false) body = true ->
+  forallb inner_choice_ok chs = true -> Forall uline_ok (print_item (IFor v c body chs)) ->
+  fbal (map (indp (q ++ ind4)%string) (print_items body)) ->
+  PB.loop_body true rlf rec_cond rec_loop (pre ++ map (indp q) (print_item (IFor v c body chs)) ++ post) (List.length pre) =
+  POk (TLoop v c (c_items body) (map (c_choice 0) chs), List.length (print_item (IFor v c body chs))).
+Proof.
+  intros q v c body chs pre post Hq Hv Hc Hit Hbody Hch Hu Hbal.
+  pose proof (pfx_ind4 q Hq) as Hq'. rewrite print_item_for in *.
+  inversion Hu as [|? ? Hlh Hu']; subst.
+  apply Forall_app in Hu'. destruct Hu' as [Hub Hu']. apply Forall_app in Hu'. destruct Hu' as [Huc _].
+  pose proof (ulines_of_nonempty _ Hub) as HuB. pose proof (ulines_of_always _ Huc) as HuC.
+  set (hdr := ("@for " ++ v ++ " in " ++ c ++ ":")%string) in *.
+  set (B := print_items body) in *. set (C := print_choices chs) in *.
+  set (L := B ++ C).
+  assert (ERAW : map (indp (q ++ ind4)%string) B ++ map (fun l => ((q ++ ind4) ++ l)%string) C =
+                 map (indp (q ++ ind4)%string) L).
+  { unfold L. rewrite map_app. f_equal. apply map_always_indp. apply first_both_nonempty_lines, Hch. }
+  set (RAW := map (indp (q ++ ind4)%string) L) in *.
+  set (lines := pre ++ map (indp q) (hdr :: map indent_nonempty B ++ map indent_always C ++ ["@endfor"]) ++ post).
+  set (start := List.length pre).
+  assert (Hsk : skipn start lines = (q ++ hdr)%string :: RAW ++ (q ++ "@endfor")%string :: post).
+  { unfold lines, start. rewrite skipn_app, skipn_all, Nat.sub_diag. cbn [skipn app map].
+    replace (indp q hdr) with (q ++ hdr)%string by reflexivity.
+    rewrite !map_app, map_indp_nonempty, map_indp_always. cbn [map indp].
+    f_equal. rewrite <- ERAW. rewrite <- !List.app_assoc. reflexivity. }
+  (* the first loop *)
+  destruct Hlh as [Hcl Hrr].
+  assert (Sq : strip (q ++ hdr)%string = hdr) by (apply strip_pfx; [exact Hq|reflexivity|exact Hrr]).
+  assert (Bal : fbal RAW).
+  { unfold RAW, L. rewrite map_app. apply fbal_app; [exact Hbal|]. apply fbal_neutrals.
+    pose proof (choices_neutral chs Hch HuC) as F. fold C in F.
+    apply Forall_forall. intros l Hl. apply in_map_iff in Hl. destruct Hl as [l0 [<- Hl0]].
+    apply fneutral_indp; [exact Hq'|]. rewrite Forall_forall in F. apply F, Hl0. }
+  assert (Coll : PB.loop_collect start (skipn start lines) start false 0 [] "" "" =
+                 POk (true, S (S start + List.length RAW), RAW, v, c)).
+  { rewrite Hsk. cbn [PB.loop_collect]. rewrite Sq, Nat.eqb_refl.
+    replace (PB.is_for_line hdr) with true
+      by (symmetry; unfold hdr, PB.is_for_line; cbn [startswith append]; rewrite ?startswith_nil; reflexivity).
+    cbn [andb]. rewrite (sic_clean hdr Hcl). cbn [fst].
+    replace (startswith hdr "@for ") with true
+      by (symmetry; unfold hdr; cbn [startswith append]; rewrite ?startswith_nil; reflexivity).
+    unfold hdr at 1. rewrite (match_for_colon_print v c Hv Hc Hrr).
+    rewrite (loop_collect_bal RAW Bal start _ (S start) 1%Z [] v c ltac:(lia) ltac:(lia)).
+    cbn [PB.loop_collect app].
+    assert (Se : strip (q ++ "@endfor")%string = "@endfor"%string)
+      by (destruct Hq as [Hq1 _]; rewrite (strip_app_ws q _ Hq1); reflexivity).
+    rewrite Se. replace (PB.is_for_line "@endfor") with false by reflexivity.
+    replace (String.eqb "@endfor" "@endfor:") with false by reflexivity. rewrite ?andb_false_r.
+    replace (startswith "@endfor" "<<endfor>>" || String.eqb "@endfor" "@endfor") with true by reflexivity.
+    replace (1 - 1 =? 0)%Z with true by reflexivity. reflexivity. }
+  unfold PB.loop_body. fold start. rewrite Coll. cbn [pbind].
+  (* the dedented body *)
+  assert (Sol : Forall solid L).
+  { unfold L. apply Forall_app. split; (eapply Forall_impl; [apply uline_solid|assumption]). }
+  assert (Fb : first_both L).
+  { unfold L, B. apply items_first with (pp := pp); [exact Hbody|exact HuB|apply choices_first, Hch]. }
+  unfold RAW. rewrite (dlc_identity _ L Hq' Sol Fb). rewrite (dedent_indp _ L Hq' Sol (first_both_ns L Fb)).
+  (* the second loop *)
+  assert (Run : PB.body_go true rlf rec_cond rec_loop L L 0 0 [] [] = POk (c_items body, map (c_choice 0) chs)).
+  { unfold L at 2. unfold B at 1.
+    rewrite (loop_items_run rec_cond rec_loop body Hit L 0 C [] [] eq_refl ltac:(lia)). fold B.
+    assert (Hsk2 : skipn (0 + List.length B) L = C ++ []).
+    { unfold L. cbn [Nat.add]. rewrite skipn_app, skipn_all, Nat.sub_diag, List.app_nil_r. reflexivity. }
+    rewrite <- (List.app_nil_r C) at 1.
+    rewrite (loop_choices_run rec_cond rec_loop chs Hch HuC L _ [] _ [] Hsk2
+               ltac:(unfold L; rewrite app_length; lia)).
+    reflexivity. }
+  rewrite Run. cbn [pbind fst snd]. f_equal. f_equal.
+  unfold RAW, L. cbn [List.length]. rewrite !app_length, !map_length. cbn [List.length]. rewrite app_length. lia.
+Qed.
+
+End LoopBlock.
+
+(* ===== part 22 ===== *)
+Local Open Scope string_scope.
+Local Open Scope nat_scope.
+Local Open Scope list_scope.
+
+(* ------------------------------------------------------------------------------------------- *)
+(* every kind of item inside a branch / a loop body                                             *)
+(* ------------------------------------------------------------------------------------------- *)
+Section OfItem.
+Variable pp : pyparse.
+Variable rec_cond rec_loop : list string -> nat -> pres (token * nat).
+
+Lemma citem_of_item : forall q it, pfx q -> item_lines_ok pp it ->
+  (forall brs, it = IIf brs -> rec_gives rec_cond q it (TCond (c_branches brs))) ->
+  (forall v c body chs, it = IFor v c body chs ->
+     rec_gives rec_loop q it (TLoop v c (c_items body) (map (c_choice 0) chs))) ->
+  cond_item_steps rec_cond rec_loop q it.
+Proof.
+  intros q it Hq [Hok Hu] Hif Hfor.
+  destruct it as [ps glue| |c|c|brs|v c body chs|t a|n a|attrs|add e t|]; cbn [item_ok] in Hok.
+  - apply cond_textish; [exact Hq|reflexivity| |exact Hu]. intros ps0 g E. injection E as <- <-. exact Hok.
+  - apply cond_textish; [exact Hq|reflexivity| |exact Hu]. intros ps0 g E. discriminate.
+  - apply (cond_stmt pp); assumption.
+  - apply cond_py; assumption.
+  - apply andb_prop in Hok. destruct Hok as [Hne Hbr].
+    apply (cond_nested_if rec_cond rec_loop q brs (TCond (c_branches brs)) Hq).
+    + destruct brs; [discriminate|discriminate].
+    + destruct brs as [|[[c0 b0] ch0] r]; [exact I|]. cbn [forallb] in Hbr. apply andb_prop in Hbr. destruct Hbr as [Hb _].
+      do 2 (apply andb_prop in Hb; destruct Hb as [Hb _]). exact Hb.
+    + exact Hu.
+    + apply c_item_if.
+    + apply Hif. reflexivity.
+  - apply (cond_nested_for rec_cond rec_loop q v c body chs _ Hq Hu eq_refl). apply Hfor. reflexivity.
+  - apply andb_prop in Hok. destruct Hok. apply cond_jump; assumption.
+  - apply cond_render; assumption.
+  - apply cond_input; assumption.
+  - apply andb_prop in Hok. destruct Hok. apply cond_hook; assumption.
+  - discriminate.
+Qed.
+
+Lemma litem_of_item : forall it, item_lines_ok pp it ->
+  (forall brs, it = IIf brs -> rec_gives rec_cond "" it (TCond (c_branches brs))) ->
+  (forall v c body chs, it = IFor v c body chs ->
+     rec_gives rec_loop "" it (TLoop v c (c_items body) (map (c_choice 0) chs))) ->
+  loop_item_steps rec_cond rec_loop it.
+Proof.
+  intros it [Hok Hu] Hif Hfor.
+  destruct it as [ps glue| |c|c|brs|v c body chs|t a|n a|attrs|add e t|]; cbn [item_ok] in Hok.
+  - apply loop_textish; [reflexivity| |exact Hu]. intros ps0 g E. injection E as <- <-. exact Hok.
+  - apply loop_textish; [reflexivity| |exact Hu]. intros ps0 g E. discriminate.
+  - apply (loop_stmt pp); assumption.
+  - apply loop_py; assumption.
+  - apply andb_prop in Hok. destruct Hok as [Hne Hbr].
+    apply (loop_nested_if rec_cond rec_loop brs (TCond (c_branches brs))).
+    + destruct brs; [discriminate|discriminate].
+    + exact Hu.
+    + apply c_item_if.
+    + apply Hif. reflexivity.
+  - apply (loop_nested_for rec_cond rec_loop v c body chs _ Hu eq_refl). apply Hfor. reflexivity.
+  - apply andb_prop in Hok. destruct Hok. apply loop_jump; assumption.
+  - apply loop_render; assumption.
+  - apply loop_input; assumption.
+  - apply andb_prop in Hok. destruct Hok. apply loop_hook; assumption.
+  - discriminate.
+Qed.
+
+End OfItem.
+
+(* ------------------------------------------------------------------------------------------- *)
+(* the two extractors on printed blocks, at any indentation, any nesting                        *)
+(* ------------------------------------------------------------------------------------------- *)
+Notation Ec := (PB.extract_conditional_block_f true (Some PB.max_block_depth) rlf).
+Notation El := (PB.extract_loop_block_f true (Some PB.max_block_depth) rlf).
+
+Definition block_spec (it : item) : Prop :=
+  forall n d q pre post, pfx q -> block_height it <= n -> d + block_height it <= PB.max_block_depth ->
+  match it with
+  | IIf brs =>
+      Ec n d (pre ++ map (indp q) (print_item it) ++ post) (List.length pre) =
+      POk (TCond (c_branches brs), List.length (print_item it))
+  | IFor v c body chs =>
+      El n d (pre ++ map (indp q) (print_item it) ++ post) (List.length pre) =
+      POk (TLoop v c (c_items body) (map (c_choice 0) chs), List.length (print_item it))
+  | _ => True
+  end.
+
+Lemma list_max_in : forall (A : Type) (f : A -> nat) l x, In x l -> f x <= list_max (map f l).
+Proof.
+  intros A f l x H. induction l as [|y l IH]; [destruct H|]. simpl. destruct H as [->|H]; [apply Nat.le_max_l|].
+  eapply Nat.le_trans; [apply IH, H|apply Nat.le_max_r].
+Qed.
+
+Lemma height_if_body : forall brs c body chs it, In (c, body, chs) brs -> In it body ->
+  S (block_height it) <= block_height (IIf brs).
+Proof.
+  intros brs c body chs it Hb Hi. cbn [block_height]. apply le_n_S.
+  pose proof (list_max_in _ (fun b : string * list item * list schoice =>
+                               let '(_, body0, _) := b in list_max (map block_height body0)) brs _ Hb) as A.
+  cbv beta iota in A. pose proof (list_max_in _ block_height body it Hi) as B. lia.
+Qed.
+
+Lemma height_for_body : forall v c body chs it, In it body -> S (block_height it) <= block_height (IFor v c body chs).
+Proof. intros v c body chs it Hi. cbn [block_height]. apply le_n_S. apply (list_max_in _ block_height body it Hi). Qed.
+
+Section Blocks.
+Variable pp : pyparse.
+
+Lemma sub_items_ok : forall body, forallb (item_ok pp false) body = true -> Forall uline_ok (print_items body) ->
+  forall it, In it body -> item_lines_ok pp it.
+Proof.
+  induction body as [|x body IH]; intros Hok Hu it Hin; [destruct Hin|].
+  cbn [forallb] in Hok. apply andb_prop in Hok. destruct Hok as [Hx Hok].
+  cbn [print_items] in Hu. apply Forall_app in Hu. destruct Hu as [Hu1 Hu2].
+  destruct Hin as [<-|Hin]; [split; assumption|apply IH; assumption].
+Qed.
+
+Theorem blocks_spec : forall it, item_lines_ok pp it -> block_spec it.
+Proof.
+  induction it using ReferenceProofs.item_ind'; intros [Hok Hu] fuel d q pre post Hq Hn Hd; try exact I.
+  - (* @if *)
+    destruct fuel as [|fuel']; [cbn [block_height] in Hn; lia|].
+    cbn [PB.extract_conditional_block_f]. unfold PB.too_deep.
+    replace (PB.max_block_depth <=? d) with false
+      by (symmetry; apply Nat.leb_gt; cbn [block_height] in Hd; unfold PB.max_block_depth in *; lia).
+    cbn [item_ok] in Hok. apply andb_prop in Hok. destruct Hok as [Hne Hbr].
+    apply cond_body_print; [exact Hq|destruct brs; [discriminate|discriminate]| |exact Hu].
+    (* every branch *)
+    rewrite print_item_if in Hu. apply Forall_app in Hu. destruct Hu as [Hu _].
+    assert (G : forall (first : bool) sub, (forall b, In b sub -> In b brs) ->
+              Forall (fun b => Forall (fun it => item_lines_ok pp it -> block_spec it) (snd (fst b))) sub ->
+              forallb (fun b : string * list item * list schoice =>
+                         match b with (cond, body, chs) =>
+                           cond_header_ok cond && forallb (item_ok pp false) body && forallb inner_choice_ok chs end) sub = true ->
+              Forall uline_ok (print_branches sub first) ->
+              Forall (branch_ok (Ec fuel' (S d)) (El fuel' (S d)) q) sub).
+    { intros first sub. revert first. induction sub as [|[[c0 b0] ch0] r IHr]; intros first Hsub HF Hb Hul; [constructor|].
+      inversion HF as [|? ? HF0 HFr]; subst. cbn [snd fst] in HF0.
+      cbn [forallb] in Hb. apply andb_prop in Hb. destruct Hb as [Hb0 Hbr'].
+      do 2 (apply andb_prop in Hb0; destruct Hb0 as [Hb0 ?]). rename H0 into Hch0. rename H1 into Hbody0.
+      rewrite print_branches_cons in Hul. inversion Hul as [|? ? Hlh Hul']; subst.
+      apply Forall_app in Hul'. destruct Hul' as [Hub Hul']. apply Forall_app in Hul'. destruct Hul' as [Huc Hur].
+      pose proof (ulines_of_nonempty _ Hub) as HuB.
+      constructor; [|apply (IHr false); [intros b Hbin; apply Hsub; right; exact Hbin|assumption|assumption|assumption]].
+      cbn [branch_ok]. split; [exact Hb0|split; [|split; [exact Hch0|apply ulines_of_always, Huc]]].
+      apply Forall_forall. intros it Hit.
+      pose proof (sub_items_ok b0 Hbody0 HuB it Hit) as Hio.
+      rewrite Forall_forall in HF0. pose proof (HF0 it Hit Hio) as Spec.
+      pose proof (height_if_body brs c0 b0 ch0 it (Hsub _ (or_introl eq_refl)) Hit) as Hh.
+      apply (citem_of_item pp); [apply pfx_ind4, Hq|exact Hio| |].
+      + intros brs' ->. intros pre' post'.
+        apply (Spec fuel' (S d) (q ++ ind4)%string pre' post' (pfx_ind4 q Hq)); lia.
+      + intros v' c' body' chs' ->. intros pre' post'.
+        apply (Spec fuel' (S d) (q ++ ind4)%string pre' post' (pfx_ind4 q Hq)); lia. }
+    apply (G true brs (fun b Hb => Hb) H Hbr Hu).
+  - (* @for *)
+    destruct fuel as [|fuel']; [cbn [block_height] in Hn; lia|].
+    cbn [PB.extract_loop_block_f]. unfold PB.too_deep.
+    replace (PB.max_block_depth <=? d) with false
+      by (symmetry; apply Nat.leb_gt; cbn [block_height] in Hd; unfold PB.max_block_depth in *; lia).
+    cbn [item_ok] in Hok. do 3 (apply andb_prop in Hok; destruct Hok as [Hok ?]).
+    rename H0 into Hch. rename H1 into Hbody. rename H2 into Hc.
+    pose proof Hu as Hu0. rewrite print_item_for in Hu0. inversion Hu0 as [|? ? Hlh Hu']; subst.
+    apply Forall_app in Hu'. destruct Hu' as [Hub _]. pose proof (ulines_of_nonempty _ Hub) as HuB.
+    apply (loop_body_print pp); try assumption.
+    + apply Forall_forall. intros it Hit.
+      pose proof (sub_items_ok body Hbody HuB it Hit) as Hio.
+      rewrite Forall_forall in H. pose proof (H it Hit Hio) as Spec.
+      pose proof (height_for_body v c body chs it Hit) as Hh.
+      apply (litem_of_item pp); [exact Hio| |].
+      * intros brs' ->. intros pre' post'. apply (Spec fuel' (S d) ""%string pre' post' pfx_nil); lia.
+      * intros v' c' body' chs' ->. intros pre' post'. apply (Spec fuel' (S d) ""%string pre' post' pfx_nil); lia.
+    + (* the raw body is balanced *)
+      clear - Hbody HuB Hq. induction body as [|it body IHb]; [constructor|].
+      cbn [forallb] in Hbody. apply andb_prop in Hbody. destruct Hbody as [Hi Hbody].
+      cbn [print_items] in *. apply Forall_app in HuB. destruct HuB as [U1 U2]. rewrite map_app.
+      apply fbal_app; [apply (items_fbal pp); [split; assumption|apply pfx_ind4, Hq]|apply IHb; assumption].
+Qed.
+
+End Blocks.
+
+(* ------------------------------------------------------------------------------------------- *)
+(* blocks at the top level of a passage, and the whole theorem                                  *)
+(* ------------------------------------------------------------------------------------------- *)
+Lemma list_max_cons : forall x l, list_max (x :: l) = Nat.max x (list_max l).
+Proof. reflexivity. Qed.
+
+Lemma body_height_lines : forall body, Forall (fun it => block_height it <= List.length (print_item it)) body ->
+  list_max (map block_height body) <= List.length (print_items body).
+Proof.
+  induction 1 as [|x l Hx _ IH]; [cbn; lia|]. cbn [map print_items]. rewrite list_max_cons, app_length.
+  apply Nat.max_lub; lia.
+Qed.
+
+Lemma block_height_lines : forall it, block_height it <= List.length (print_item it).
+Proof.
+  induction it using ReferenceProofs.item_ind'; try (cbn [block_height]; lia).
+  - (* if *)
+    rewrite print_item_if, app_length. cbn [List.length block_height].
+    assert (G : forall (first : bool), list_max (map (fun b : string * list item * list schoice =>
+                   let '(_, body, _) := b in list_max (map block_height body)) brs) <= List.length (print_branches brs first)).
+    { induction H as [|[[c0 b0] ch0] r Hb _ IHr]; intros first; [cbn; lia|].
+      cbn [map]. rewrite list_max_cons. rewrite print_branches_cons. cbn [List.length]. rewrite !app_length, !map_length.
+      specialize (IHr false). cbn [snd fst] in Hb. pose proof (body_height_lines b0 Hb) as B.
+      apply Nat.max_lub; lia. }
+    specialize (G true). lia.
+  - rewrite print_item_for. cbn [List.length block_height]. rewrite !app_length, !map_length.
+    pose proof (body_height_lines body H) as B. lia.
+Qed.
+
+Section Full.
+Variable pp : pyparse.
+Variable is_call : string -> bool.
+Notation rx := ParseAllProofs.real_extractors.
+
+Lemma item_lines_top : forall it, item_ok pp true it = true -> single_line it = false -> lines_ok (print_item it) ->
+  (exists c, it = IPy c) \/ item_lines_ok pp it.
+Proof.
+  intros it Hok Hs Hl. destruct it as [ps glue| |c|c|brs|v c body chs|t a|n a|attrs|add e t|]; try discriminate.
+  - left. eauto.
+  - right. split; [exact Hok|]. rewrite <- (map_indp_nil (print_item (IIf brs))) in Hl. apply (ulines_of_map "" _ Hl).
+  - right. split; [exact Hok|]. rewrite <- (map_indp_nil (print_item (IFor v c body chs))) in Hl. apply (ulines_of_map "" _ Hl).
+Qed.
+
+Lemma block_fuel_ge : forall (pre : list string) L post, List.length L <= PB.block_fuel (pre ++ L ++ post) (List.length pre).
+Proof. intros. unfold PB.block_fuel. rewrite !app_length. lia. Qed.
+
+Lemma if_item_steps : forall brs, item_ok pp true (IIf brs) = true -> block_height (IIf brs) <= 100 ->
+  item_steps pp rx (IIf brs).
+Proof.
+  intros brs Hok Hh pre post st cp Hr Hl.
+  assert (Hio : item_lines_ok pp (IIf brs)).
+  { split; [exact Hok|]. rewrite <- (map_indp_nil (print_item (IIf brs))) in Hl. apply (ulines_of_map "" _ Hl). }
+  set (lines := pre ++ print_item (IIf brs) ++ post).
+  pose proof (blocks_spec pp (IIf brs) Hio (PB.block_fuel lines (List.length pre)) 0 "" pre post pfx_nil) as Spec.
+  cbv beta iota in Spec. rewrite map_indp_nil in Spec. fold lines in Spec.
+  pose proof (block_height_lines (IIf brs)) as HL. pose proof (block_fuel_ge pre (print_item (IIf brs)) post) as HF.
+  fold lines in HF.
+  specialize (Spec ltac:(lia) ltac:(unfold PB.max_block_depth; lia)).
+  destruct brs as [|[[c0 b0] ch0] r]; [discriminate|].
+  assert (E : exists more, print_item (IIf ((c0, b0, ch0) :: r)) = ("@if " ++ c0 ++ ":")%string :: more).
+  { rewrite print_item_if, print_branches_cons. eexists. reflexivity. }
+  destruct E as [more E]. rewrite E in Hl. inversion Hl as [|? ? H0 _]; subst.
+  destruct (line_ok_parts _ H0) as [_ Hrs].
+  assert (Hs : strip ("@if " ++ c0 ++ ":")%string = ("@if " ++ c0 ++ ":")%string) by (apply strip_fixed; [reflexivity|exact Hrs]).
+  assert (K : classify ("@if " ++ c0 ++ ":")%string = KIf /\ body_line ("@if " ++ c0 ++ ":")%string) by (known_line Hs).
+  destruct K as [Hk Hb].
+  eapply reaches_step; [unfold lines; rewrite E; apply (nth_error_mid pre _ (more ++ post))| |rewrite E; cbn [List.length]; lia].
+  fold lines. rewrite (parse_step_body pp rx lines _ _ st cp Hr Hb). rewrite (body_step_if pp rx lines _ _ st cp Hk).
+  change (x_conditional rx lines (List.length pre)) with
+    (PB.extract_conditional_block_f true (Some PB.max_block_depth) rlf (PB.block_fuel lines (List.length pre)) 0 lines (List.length pre)).
+  rewrite Spec. cbn [pbind]. cbn [app_item]. rewrite c_item_if. reflexivity.
+Qed.
+
+Lemma for_item_steps : forall v c body chs, item_ok pp true (IFor v c body chs) = true ->
+  block_height (IFor v c body chs) <= 100 -> item_steps pp rx (IFor v c body chs).
+Proof.
+  intros v c body chs Hok Hh pre post st cp Hr Hl.
+  assert (Hio : item_lines_ok pp (IFor v c body chs)).
+  { split; [exact Hok|]. rewrite <- (map_indp_nil (print_item (IFor v c body chs))) in Hl. apply (ulines_of_map "" _ Hl). }
+  set (lines := pre ++ print_item (IFor v c body chs) ++ post).
+  pose proof (blocks_spec pp (IFor v c body chs) Hio (PB.block_fuel lines (List.length pre)) 0 "" pre post pfx_nil) as Spec.
+  cbv beta iota in Spec. rewrite map_indp_nil in Spec. fold lines in Spec.
+  pose proof (block_height_lines (IFor v c body chs)) as HL.
+  pose proof (block_fuel_ge pre (print_item (IFor v c body chs)) post) as HF. fold lines in HF.
+  specialize (Spec ltac:(lia) ltac:(unfold PB.max_block_depth; lia)).
+  pose proof (print_item_for v c body chs) as E. rewrite E in Hl. inversion Hl as [|? ? H0 _]; subst.
+  destruct (line_ok_parts _ H0) as [_ Hrs].
+  assert (Hs : strip ("@for " ++ v ++ " in " ++ c ++ ":")%string = ("@for " ++ v ++ " in " ++ c ++ ":")%string)
+    by (apply strip_fixed; [reflexivity|exact Hrs]).
+  assert (K : classify ("@for " ++ v ++ " in " ++ c ++ ":")%string = KFor /\ body_line ("@for " ++ v ++ " in " ++ c ++ ":")%string)
+    by (known_line Hs).
+  destruct K as [Hk Hb].
+  eapply reaches_step; [unfold lines; rewrite E; apply (nth_error_mid pre _ (_ ++ post))| |rewrite E; cbn [List.length]; lia].
+  fold lines. rewrite (parse_step_body pp rx lines _ _ st cp Hr Hb). rewrite (body_step_for pp rx lines _ _ st cp Hk).
+  change (x_loop rx lines (List.length pre)) with
+    (PB.extract_loop_block_f true (Some PB.max_block_depth) rlf (PB.block_fuel lines (List.length pre)) 0 lines (List.length pre)).
+  rewrite Spec. cbn [pbind]. reflexivity.
+Qed.
+
+Lemma all_item_steps : forall it, item_ok pp true it = true -> block_height it <= 100 -> item_steps pp rx it.
+Proof.
+  intros it Hok Hh. destruct (single_line it) eqn:E.
+  - apply single_line_item_steps; assumption.
+  - destruct it; try discriminate.
+    + apply py_item_steps; [reflexivity|exact Hok].
+    + apply if_item_steps; assumption.
+    + apply for_item_steps; assumption.
+Qed.
+
+(* parse (print s) = compile_ref s, for every printable story *)
+Theorem parse_print_full : forall s,
+  printable pp is_call s = true ->
+  ParseAllProofs.parse_real pp is_call (print_story s) = POk (compile_ref s).
+Proof.
+  intros s Hp. unfold ParseAllProofs.parse_real. apply parse_print_gen; [exact Hp|].
+  intros p Hin. pose proof (printable_passages pp is_call s Hp) as Hps. rewrite forallb_forall in Hps.
+  specialize (Hps p Hin). split; [|apply choices_all_steps, Hps].
+  pose proof (items_ok_of_passage pp p Hps) as Hi.
+  assert (Hh : forallb (fun it => Nat.leb (block_height it) 100) (sp_body p) = true).
+  { unfold passage_ok in Hps. do 3 (apply andb_prop in Hps; destruct Hps as [Hps ?]). assumption. }
+  apply Forall_forall. intros it Hit. rewrite forallb_forall in Hi, Hh.
+  apply all_item_steps; [apply Hi, Hit|apply Nat.leb_le, Hh, Hit].
+Qed.
+
+End Full.
+
+(* ===== part 23 ===== *)
+Local Open Scope string_scope.
+Local Open Scope nat_scope.
+Local Open Scope list_scope.
+
+(* ------------------------------------------------------------------------------------------- *)
+(* end to end: what the parser model makes of the printed text plays with the reference meaning *)
+(* ------------------------------------------------------------------------------------------- *)
+Lemma printed_story_reference_meaning : forall pp is_call s,
+  printable pp is_call s = true ->
+  exists st, ParseAllProofs.parse_real pp is_call (print_story s) = POk st /\
+    initial st = initial_of s /\
+    forall p, In p (ss_passages s) ->
+      exists cp, In (sp_name p, cp) (passages st) /\ choices cp = map (fun sc => c_choice (fst sc) (snd sc)) (sp_choices p) /\
+        (forall orc ctxkeys s0,
+           Engine.exec_commands orc ctxkeys (execute cp) s0 = Reference.sem_enter orc ctxkeys (sp_body p) s0) /\
+        (forall orc ctxkeys s0, forallb (fun it => negb (ReferenceProofs.is_join it)) (sp_body p) = true ->
+           ReferenceProofs.same_up_to_newlines
+             (Reference.sem_items orc ctxkeys (filter ReferenceProofs.shown_item (sp_body p)) s0)
+             (Engine.render_content orc ctxkeys (content cp) s0)).
+Proof.
+  intros pp is_call s H. exists (compile_ref s). split; [apply parse_print_full, H|]. split; [reflexivity|].
+  intros p Hin. exists (compile_passage p). split; [|split; [reflexivity|split]].
+  - cbn [compile_ref passages]. apply in_map_iff. exists p. split; [reflexivity|exact Hin].
+  - intros orc ctxkeys s0. apply ReferenceProofs.compiled_enter_meaning.
+  - intros orc ctxkeys s0 Hj. apply ReferenceProofs.passage_content_meaning_full, Hj.
+Qed.
 
 (* ===== part 15 ===== *)
 Local Open Scope string_scope.
